@@ -40,6 +40,15 @@ def payload_type(model, call: ast.Call, handler_msg: dict):
     return None
 
 
+# calls that cannot fail on any value they are given (clock reads, identity / type questions): not "fallible work" for the ordering rules
+_CANNOT_FAIL = ("time.time", "time.perf_counter", "time.monotonic", "time.time_ns", "time.perf_counter_ns", "id", "type", "isinstance")
+
+
+def _harmless(c: ast.AST) -> bool:
+    """a logging call (or the getLogger call feeding one), or a call that cannot fail"""
+    return _log_noise(c) or (isinstance(c, ast.Call) and dotted(c.func) in _CANNOT_FAIL)
+
+
 def _log_noise(c: ast.AST) -> bool:
     """A logging call, or the `logging.getLogger(...)` call that is the receiver of one (its arguments are NOT exempt)."""
     if is_logging_call(c):
@@ -63,66 +72,263 @@ def _created_actor_locals(func) -> set:
     return good - bad
 
 
-def send_target_ok(call: ast.Call, addr_attrs: set, func) -> bool:
-    """Target of a send sink is an address attribute, the sender parameter, a local bound only to createActor(...) results, or getattr(msg, 'reply_to', sender)."""
-    if not call.args:
+def _class_method(cls, name):
+    """method `name` defined in the body of class node cls (None if absent)."""
+    return next((m for m in (cls.body if cls is not None else []) if isinstance(m, source.FUNC_TYPES) and m.name == name), None)
+
+
+def _is_method_of(func, cls) -> bool:
+    return cls is not None and any(m is func for m in cls.body)
+
+
+class _Ctx:
+    """what is known about addresses inside one function: the address attributes of its class, the names that hold an address handed in from outside (the sender of a
+    handler; parameters of a helper method that every call site binds to an address), locals bound only to createActor(...) results, single-assignment locals
+    (looked through), and - for a helper interpreted at ONE call site - its parameters bound to the caller's argument expressions."""
+
+    def __init__(self, func, addr_attrs, bound=None, outer=None):
+        self.func, self.addr_attrs, self.bound, self.outer = func, set(addr_attrs), bound, outer
+        self.defs = source.local_defs(func) if func is not None else {}
+        self.created = _created_actor_locals(func)
+        self.addr_names = set() if bound is not None else _addr_params(func, self.addr_attrs)
+
+
+_addr_params_busy: set = set()
+
+
+def _addr_params(func, addr_attrs) -> set:
+    """names visible in func that hold an actor address by construction: the sender (third positional parameter) of a message handler; a parameter of a helper method
+    that EVERY call site `self.<helper>(...)` in the class binds to an address expression of the caller; the same of an enclosing function (closures), unless shadowed."""
+    out: set = set()
+    if func is None:
+        return out
+    ps = params_of(func)
+    cls = source.enclosing_class(func)
+    if func.name.startswith("receive") and len(ps) >= 3:
+        out.add(ps[2])
+    elif _is_method_of(func, cls) and id(func) not in _addr_params_busy:
+        _addr_params_busy.add(id(func))
+        try:
+            per = None
+            for m in cls.body:
+                if not isinstance(m, source.FUNC_TYPES) or m is func:
+                    continue
+                for c in ast.walk(m):
+                    if isinstance(c, ast.Call) and is_self_attr(c.func) and c.func.attr == func.name:
+                        caller = source.enclosing_func(c)
+                        cx = _Ctx(caller, addr_attrs)
+                        here = {p_ for p_, a_ in source.bind_args(c, func).items() if _addr_like(a_, cx)}
+                        per = here if per is None else per & here
+            out |= per or set()
+        finally:
+            _addr_params_busy.discard(id(func))
+    enc = source.enclosing_func(func)
+    if enc is not None and any(isinstance(r_, ast.Return) and isinstance(r_.value, ast.Name) and r_.value.id == func.name for r_ in walk_body(enc)):
+        # a handler wrapper (the guard a decorator returns): what it passes to the wrapped handler - a parameter of the decorator - in the sender position is the sender
+        for c in walk_body(func):
+            if isinstance(c, ast.Call) and isinstance(c.func, ast.Name) and c.func.id in params_of(enc) and len(c.args) >= 3 and isinstance(c.args[2], ast.Name) and c.args[2].id in ps:
+                out.add(c.args[2].id)
+    if enc is not None:
+        out |= _addr_params(enc, addr_attrs) - set(ps)
+        # a parameter literally named sender of the handler a nested function closes over (kept from the first version of the rule)
+        if "sender" in params_of(enc) and "sender" not in ps:
+            out.add("sender")
+    return out
+
+
+def _addr_like(e, cx: _Ctx, depth=0, none_ok=False) -> bool:
+    """is expression e an actor address in context cx? An address attribute of the class / self.myAddress, an address name of cx, a local bound only to createActor(...),
+    getattr(<message>, 'reply_to', <address>), a conditional / `or` chain of addresses (an absent (None) address falls through to the next operand of an `or`; the last one
+    must be an address), a single-assignment local or a helper parameter whose value is one, or `self.<helper>(...)` every return value of which is one."""
+    if depth > 8 or cx is None:
         return False
-    t = call.args[0]
-    ps = params_of(func) if func is not None else []
-    sender = ps[2] if len(ps) >= 3 else None
-    if is_self_attr(t) and t.attr in addr_attrs:
-        return True
-    if isinstance(t, ast.Name) and (t.id == sender or t.id in _created_actor_locals(func)):
-        return True
-    if isinstance(t, ast.Name) and t.id == "sender" and any(isinstance(f_, source.FUNC_TYPES) and "sender" in params_of(f_) for f_ in source.ancestors(call)):
-        return True  # a parameter named sender (of the function or of the handler a nested function closes over)
-    if isinstance(t, ast.Call) and dotted(t.func) == "getattr" and len(t.args) == 3:
-        return source.is_const(t.args[1], "reply_to") and isinstance(t.args[2], ast.Name)
-    if isinstance(t, ast.Call) and is_self_attr(t.func) and func is not None:
-        # the target is chosen by a helper method of the class: every value it can return is an address (an address attribute, or one of its parameters / reply_to of one
-        # of its parameters where the caller passes an address or the message)
-        cls = source.enclosing_class(func)
-        helper = next((m for m in (cls.body if cls is not None else []) if isinstance(m, source.FUNC_TYPES) and m.name == t.func.attr), None)
+    if is_self_attr(e):
+        return e.attr in cx.addr_attrs or e.attr == "myAddress"
+    if isinstance(e, ast.Name):
+        if e.id in cx.addr_names or e.id in cx.created:
+            return True
+        if e.id in cx.defs:
+            return _addr_like(cx.defs[e.id], cx, depth + 1, none_ok)
+        if cx.bound is not None and e.id in cx.bound:
+            return _addr_like(cx.bound[e.id], cx.outer, depth + 1, none_ok)
+        return False
+    if isinstance(e, ast.Call) and dotted(e.func) == "getattr" and len(e.args) == 3 and source.is_const(e.args[1], "reply_to"):
+        return _addr_like(e.args[2], cx, depth + 1) or (none_ok and source.is_const(e.args[2]) and e.args[2].value is None)
+    if isinstance(e, ast.IfExp):
+        return _addr_like(e.body, cx, depth + 1) and _addr_like(e.orelse, cx, depth + 1)
+    if isinstance(e, ast.BoolOp) and isinstance(e.op, ast.Or):
+        return all(_addr_like(v_, cx, depth + 1, none_ok=True) for v_ in e.values[:-1]) and _addr_like(e.values[-1], cx, depth + 1)
+    if isinstance(e, ast.BoolOp):
+        return all(_addr_like(v_, cx, depth + 1) for v_ in e.values)
+    if isinstance(e, ast.Call) and is_self_attr(e.func) and cx.func is not None:
+        # the target is chosen by a helper method of the class: every value it can return is an address
+        helper = _class_method(source.enclosing_class(cx.func), e.func.attr)
         if helper is None:
             return False
-        bound = source.bind_args(t, helper)
-        hps = [p_ for p_ in params_of(helper) if p_ != "self"]
-        defs = source.local_defs(helper)
-
-        def addr_like(e, depth=0, none_ok=False):
-            if depth > 6:
-                return False
-            if is_self_attr(e) and (e.attr in addr_attrs or e.attr == "myAddress"):
-                return True
-            if isinstance(e, ast.Name) and e.id in defs:
-                return addr_like(defs[e.id], depth + 1)
-            if isinstance(e, ast.Name) and e.id in hps:
-                a_ = bound.get(e.id)
-                return isinstance(a_, ast.Name) and (a_.id == sender or a_.id == "sender")
-            if isinstance(e, ast.Call) and dotted(e.func) == "getattr" and len(e.args) == 3 and source.is_const(e.args[1], "reply_to"):
-                return addr_like(e.args[2], depth + 1) or (none_ok and source.is_const(e.args[2]) and e.args[2].value is None)
-            if isinstance(e, ast.IfExp):
-                return addr_like(e.body, depth + 1) and addr_like(e.orelse, depth + 1)
-            if isinstance(e, ast.BoolOp) and isinstance(e.op, ast.Or):
-                # `a or b or c`: an absent (None) address falls through to the next operand; the last one must be an address
-                return all(addr_like(v_, depth + 1, none_ok=True) for v_ in e.values[:-1]) and addr_like(e.values[-1], depth + 1)
-            if isinstance(e, ast.BoolOp):
-                return all(addr_like(v_, depth + 1) for v_ in e.values)
-            return False
-
+        hx = _Ctx(helper, cx.addr_attrs, bound=source.bind_args(e, helper), outer=cx)
         rets = [n for n in walk_body(helper) if isinstance(n, ast.Return)]
 
         def ret_ok(r_):
             v_ = r_.value
             if v_ is None:
                 return False
-            if addr_like(v_):
+            if _addr_like(v_, hx, depth + 1):
                 return True
             # `x = getattr(msg, "reply_to", None)` returned only where x is known to be set (`if x: return x`)
-            return isinstance(v_, ast.Name) and v_.id in defs and addr_like(defs[v_.id], none_ok=True) and any(isinstance(f_, ast.Name) and f_.id == v_.id for f_ in pat.fact_nodes(r_))
+            return isinstance(v_, ast.Name) and v_.id in hx.defs and _addr_like(hx.defs[v_.id], hx, depth + 1, none_ok=True) \
+                and any(isinstance(f_, ast.Name) and f_.id == v_.id for f_ in pat.fact_nodes(r_))
 
         return bool(rets) and all(ret_ok(r_) for r_ in rets)
     return False
+
+
+def send_target_ok(call: ast.Call, addr_attrs: set, func) -> bool:
+    """Target of a send sink is an actor address (see _addr_like): an address attribute, the sender of the handler (or a helper parameter every call site binds to an
+    address), a local bound only to createActor(...) results, getattr(msg, 'reply_to', <address>), a local / helper method / or-chain that yields one of these."""
+    if not call.args:
+        return False
+    return _addr_like(call.args[0], _Ctx(func, addr_attrs))
+
+
+def _addr_verdict(e, cx: _Ctx, depth=0):
+    """True: e is an actor address (see _addr_like); False: it is located and is NOT one (a constant, an attribute of the class that is assigned but never from a sender /
+    createActor, a local one of whose several bindings is no address); None: not recognised (a foreign attribute, the result of a call the rule does not follow, a parameter
+    that is not proven to be an address at every call site)."""
+    if _addr_like(e, cx):
+        return True
+    if depth > 4 or cx is None or cx.func is None:
+        return None
+    if isinstance(e, ast.Constant):
+        return False
+    if isinstance(e, ast.Name):
+        if e.id in cx.defs:
+            return _addr_verdict(cx.defs[e.id], cx, depth + 1)
+        a_ = cx.func.args
+        if e.id in [x.arg for x in a_.posonlyargs + a_.args + a_.kwonlyargs]:
+            return None
+        stores = [n for n in walk_body(cx.func) if isinstance(n, ast.Name) and n.id == e.id and isinstance(n.ctx, ast.Store)]
+        plain = [n for n in stores if isinstance(source.parent(n), ast.Assign) and any(t is n for t in source.parent(n).targets)]
+        return False if stores and len(plain) == len(stores) else None
+    if is_self_attr(e):
+        cls = source.enclosing_class(cx.func)
+        assigned = cls is not None and any(isinstance(n, ast.Attribute) and isinstance(n.ctx, ast.Store) and is_self_attr(n, e.attr) for m in cls.body if isinstance(m, source.FUNC_TYPES) for n in ast.walk(m))
+        if not assigned:
+            return None
+        # "assigned in the class but never an address" is only a verdict if nothing out of sight could store an address there: no method that is not defined in this
+        # class (inherited / mixed in) is handed the sender of a handler
+        for m in cls.body:
+            if isinstance(m, source.FUNC_TYPES):
+                snd = _addr_params(m, cx.addr_attrs)
+                for c in ast.walk(m):
+                    if isinstance(c, ast.Call) and is_self_attr(c.func) and c.func.attr not in ("send", "createActor", "wakeupAfter") and _class_method(cls, c.func.attr) is None \
+                            and any(isinstance(a_, ast.Name) and a_.id in snd for a_ in list(c.args) + [k.value for k in c.keywords]):
+                        return None
+        return False
+    if isinstance(e, (ast.IfExp, ast.BoolOp)):
+        parts = [e.body, e.orelse] if isinstance(e, ast.IfExp) else list(e.values)
+        return False if any(_addr_verdict(x, cx, depth + 1) is False for x in parts) else None
+    if isinstance(e, ast.Call) and dotted(e.func) == "getattr" and len(e.args) == 3 and source.is_const(e.args[1], "reply_to"):
+        return _addr_verdict(e.args[2], cx, depth + 1)  # the requester stamped into the message, else the default: as good as the default (None: nobody is told)
+    return None
+
+
+def send_target_verdict(call: ast.Call, addr_attrs: set, func):
+    """True / False / None (not recognised) for the target of a send sink, see _addr_verdict."""
+    if not call.args:
+        return False
+    return _addr_verdict(call.args[0], _Ctx(func, addr_attrs))
+
+
+def _origin_handlers(func, cls, depth=0) -> list:
+    """names of the message handlers on whose behalf func runs: func itself if it is one, else the handlers that reach it through `self.<func>(...)` calls in the class."""
+    if func.name.startswith("receive"):
+        return [func.name]
+    out = []
+    if depth < 3 and cls is not None:
+        for m in cls.body:
+            if isinstance(m, source.FUNC_TYPES) and m is not func and any(isinstance(c, ast.Call) and is_self_attr(c.func) and c.func.attr == func.name for c in ast.walk(m)):
+                out += _origin_handlers(m, cls, depth + 1)
+    return out
+
+
+def _address_attrs(model, a) -> dict:
+    """ActorModel.address_attrs by data flow: self.<attr> assigned (in a handler, or in a helper method the handler hands its sender to) a value that is the handler's sender
+    or getattr(msg, 'reply_to', sender) - directly or through single-assignment locals -, or the result of createActor(...). {attr: [(handler name, kind, node)]}"""
+    out: dict = {k: list(v) for k, v in model.address_attrs(a).items()}
+    seen = {id(n) for v in out.values() for _, _, n in v}
+    for name, f in a.methods.items():
+        if name == "__init__":
+            continue
+        cx = _Ctx(f, ())
+        if not cx.addr_names and not cx.defs:
+            continue
+        for n in walk_body(f):
+            if isinstance(n, ast.Assign) and len(n.targets) == 1 and is_self_attr(n.targets[0]) and id(n) not in seen:
+                v, k = n.value, 0
+                while isinstance(v, ast.Name) and v.id in cx.defs and k < 5:
+                    v, k = cx.defs[v.id], k + 1
+                if isinstance(v, ast.Call) and last_attr(v.func) == "createActor":
+                    out.setdefault(n.targets[0].attr, []).append((name, "createActor", n))
+                elif (isinstance(v, ast.Name) and v.id in cx.addr_names) or (isinstance(v, ast.Call) and dotted(v.func) == "getattr" and len(v.args) == 3
+                                                                           and source.is_const(v.args[1], "reply_to") and isinstance(v.args[2], ast.Name) and v.args[2].id in cx.addr_names):
+                    for hn in _origin_handlers(f, a.node) or [name]:
+                        out.setdefault(n.targets[0].attr, []).append((hn, "sender", n))
+    return out
+
+
+def _infallible_expr(e) -> bool:
+    """an expression that cannot raise on the plain objects a handler is given: names, constants, getattr with a default, and identity tests / boolean combinations /
+    tuples of such (a preamble made of such bindings in front of a whole-body try leaves nothing unguarded)."""
+    if isinstance(e, (ast.Name, ast.Constant)):
+        return True
+    if isinstance(e, ast.Call) and dotted(e.func) == "getattr" and len(e.args) == 3 and not e.keywords:
+        return all(_infallible_expr(x) for x in e.args)
+    if isinstance(e, ast.IfExp):
+        return all(_infallible_expr(x) for x in (e.test, e.body, e.orelse))
+    if isinstance(e, ast.BoolOp):
+        return all(_infallible_expr(x) for x in e.values)
+    if isinstance(e, ast.UnaryOp) and isinstance(e.op, ast.Not):
+        return _infallible_expr(e.operand)
+    if isinstance(e, ast.Compare) and all(isinstance(o, (ast.Is, ast.IsNot)) for o in e.ops):
+        return all(_infallible_expr(x) for x in [e.left] + e.comparators)
+    if isinstance(e, ast.Tuple):
+        return all(_infallible_expr(x) for x in e.elts)
+    return False
+
+
+def _must_send_failure(cls, call, depth=0) -> bool:
+    """`self.<helper>(...)`: the helper method sends a BenchmarkFailure on every path to its normal end (directly or through a further helper)."""
+    if depth > 3 or not (isinstance(call, ast.Call) and is_self_attr(call.func)):
+        return False
+    helper = _class_method(cls, call.func.attr)
+    if helper is None:
+        return False
+    g = cfg_of(helper)
+    nodes = [g.node_of(c) for c in walk_body(helper) if isinstance(c, ast.Call) and (is_failure_send(c) or _must_send_failure(cls, c, depth + 1))]
+    return bool(nodes) and g.must_pass(g.entry, nodes)
+
+
+def _handler_guard(func):
+    """handler_guard (sa.classes) that also recognises a whole-body try preceded by bindings that cannot raise (`reply_to = getattr(msg, "reply_to", sender)` hoisted out of
+    the try), and a broad handler that reports through a helper method of the class which sends the BenchmarkFailure on every path."""
+    g = handler_guard(func)
+    if g is not None:
+        return g
+    body = [s for s in func.body if not (isinstance(s, ast.Expr) and isinstance(s.value, ast.Constant)) and not is_logging_stmt(s)]
+    if all(isinstance(s, ast.Pass) or (isinstance(s, ast.Assign) and all(isinstance(t, ast.Name) or is_self_attr(t) for t in s.targets) and _infallible_expr(s.value)) for s in body):
+        return "nothing-fallible"  # the handler only logs / stores names and constants: there is nothing a guard could catch
+    i = 0
+    while i < len(body) and isinstance(body[i], ast.Assign) and all(isinstance(t, ast.Name) for t in body[i].targets) and _infallible_expr(body[i].value):
+        i += 1
+    if len(body) - i != 1 or not isinstance(body[i], ast.Try):
+        return None
+    cls = source.enclosing_class(func)
+    for h in body[i].handlers:
+        if h.type is None or last_attr(h.type) in ("Exception", "BaseException"):
+            sends = [n for b in h.body for n in source.walk_local(b) if is_failure_send(n) or _must_send_failure(cls, n)]
+            if any(not guards(n, stop=h) for n in sends):
+                return "try"
+    return None
 
 
 class _NoValue(Exception):
@@ -195,6 +401,226 @@ def _address_value(e, env, cls, depth=0):
     raise _NoValue(f"expression {type(e).__name__}")
 
 
+_ldefs_cache: dict = {}
+
+
+def _ldefs(func) -> dict:
+    """source.local_defs(func), cached per function node."""
+    if func is None:
+        return {}
+    hit = _ldefs_cache.get(id(func))
+    if hit is None or hit[0] is not func:
+        hit = (func, source.local_defs(func))
+        _ldefs_cache[id(func)] = hit
+    return hit[1]
+
+
+def _through_locals(e, func, limit=4):
+    """the expression a single-assignment local stands for (`failure = BenchmarkFailure(..); self.send(x, failure)`)."""
+    defs, k = _ldefs(func), 0
+    while isinstance(e, ast.Name) and e.id in defs and k < limit:
+        e, k = defs[e.id], k + 1
+    return e
+
+
+def _payload_ctor(call, func=None):
+    """constructor call that builds the payload (second argument) of a send / ask / tell, looking through single-assignment locals; None if it is not built in this function."""
+    if not (isinstance(call, ast.Call) and len(call.args) >= 2):
+        return None
+    p = _through_locals(call.args[1], func if func is not None else source.enclosing_func(call))
+    return p if isinstance(p, ast.Call) else None
+
+
+def _sends(call, func, *classes) -> bool:
+    """call is send/ask/tell whose payload is constructed (directly or via a single-assignment local) as one of the message classes."""
+    if not (isinstance(call, ast.Call) and last_attr(call.func) in ("send", "ask", "tell")):
+        return False
+    p = _payload_ctor(call, func)
+    return p is not None and last_attr(p.func) in classes
+
+
+def _is_failure_send(call, func=None) -> bool:
+    return is_failure_send(call) or _sends(call, func, "BenchmarkFailure")
+
+
+def _report_sites(model, a, f, msg_names: set, addr_attrs: set, accept_failure: bool, depth=0):
+    """(recognised, unrecognised) sites in f that report upwards: self.send(<address>, <m>) with m one of msg_names (the message being forwarded) or - with accept_failure -
+    a freshly built BenchmarkFailure, and calls of helper methods of the class that do so on every path of theirs (handed the message where one is forwarded).
+    recognised: [(node in f, [leaf])], leaf = (send call, function containing it, [(call, callee)] chain from f down to that function);
+    unrecognised: such sends whose target is not recognised as an actor address (nodes in f)."""
+    rec, unrec = [], []
+    for c in walk_body(f):
+        if not isinstance(c, ast.Call):
+            continue
+        if last_attr(c.func) == "send":
+            if len(c.args) >= 2 and ((isinstance(c.args[1], ast.Name) and c.args[1].id in msg_names) or (accept_failure and _is_failure_send(c, f))):
+                if send_target_ok(c, addr_attrs, f):
+                    rec.append((c, [(c, f, [])]))
+                else:
+                    unrec.append(c)
+            continue
+        if is_self_attr(c.func) and depth < 3:
+            callee = model.table.method(a, c.func.attr)
+            if callee is None or callee is f:
+                continue
+            inner = {p_ for p_, v_ in source.bind_args(c, callee).items() if isinstance(v_, ast.Name) and v_.id in msg_names}
+            if not inner and not accept_failure:
+                continue
+            r2, u2 = _report_sites(model, a, callee, inner, addr_attrs, accept_failure, depth + 1)
+            gh = cfg_of(callee)
+            if r2 and gh.must_pass(gh.entry, [gh.node_of(x) for x, _ in r2]):
+                rec.append((c, [(lc, lf, [(c, callee)] + ch) for _, lfs in r2 for lc, lf, ch in lfs]))
+            elif u2:
+                unrec.append(c)
+            # a helper that reports on some of its paths only is no reporting site: the path analysis of the caller then shows the bypass
+    return rec, unrec
+
+
+def _leaf_parent_attr(leaf) -> str:
+    """the address attribute a reporting send goes to (through locals and helper parameters), or 'reply_to|sender' for a computed target."""
+    send_call, func, chain = leaf
+    t = _through_locals(send_call.args[0], func)
+    for call, callee in reversed(chain):
+        if isinstance(t, ast.Name) and t.id in params_of(callee):
+            t = source.bind_args(call, callee).get(t.id, t)
+            t = _through_locals(t, source.enclosing_func(call))
+        else:
+            break
+    return t.attr if is_self_attr(t) else "reply_to|sender"
+
+
+def _leaf_target_value(leaf, env0: dict, clsnode):
+    """_address_value of a reporting send's target in the scenario env0 (names of the handler), carried through the helper calls that lead to the send."""
+    send_call, func, chain = leaf
+    env = dict(env0)
+    for call, callee in chain:
+        henv = {k: v for k, v in env.items() if k.startswith("self.")}
+        caller = source.enclosing_func(call)
+        for k, v in source.bind_args(call, callee).items():
+            try:
+                henv[k] = _address_value(source.inline_node(v, _ldefs(caller)), env, clsnode)
+            except _NoValue:
+                pass  # an argument the scenario does not fix (a text, a count): only a problem if the target depends on it
+        env = henv
+    return _address_value(source.inline_node(send_call.args[0], _ldefs(func)), env, clsnode)
+
+
+def _attr_classes(model, a) -> dict:
+    """{attribute: ClassInfo} for `self.<attribute> = <PackageClass>(...)` in the methods of actor class a (the plain objects an actor delegates to)."""
+    out = {}
+    for m in a.methods.values():
+        for n in walk_body(m):
+            if isinstance(n, ast.Assign) and len(n.targets) == 1 and is_self_attr(n.targets[0]):
+                v = _through_locals(n.value, m)
+                if isinstance(v, ast.Call) and last_attr(v.func) in model.table.by_name and last_attr(v.func) != "createActor":
+                    out[n.targets[0].attr] = model.table.by_name[last_attr(v.func)][0]
+    return out
+
+
+def _result_calls(coord_ci) -> list:
+    """(method, call) for every call in the coordinator that computes, stores or prints results; store_race counts where the method also computes / adds results
+    (the first store of a race, before anything ran, carries none)."""
+    out = []
+    for m in coord_ci.methods.values():
+        calls = [n for n in walk_body(m) if isinstance(n, ast.Call)]
+        if any(last_attr(n.func) in RESULT_CALLS for n in calls):
+            out += [(m, n) for n in calls if last_attr(n.func) in RESULT_CALLS or last_attr(n.func) == "store_race"]
+    return out
+
+
+def _guard_chains(coord_ci, m, n, depth=0) -> list:
+    """lists of (test, polarity) under which call n of method m runs: its own guards, extended by the guards of every call site `self.<m>(...)` inside the class
+    (a helper that holds the result calls inherits the conditions it is called under); one list per call chain."""
+    own = guards(n, path_sensitive=True)
+    sites = [(m2, c) for m2 in coord_ci.methods.values() if m2 is not m for c in walk_body(m2) if isinstance(c, ast.Call) and is_self_attr(c.func) and c.func.attr == m.name]
+    if not sites or depth >= 3:
+        return [own]
+    return [up + own for m2, c in sites for up in _guard_chains(coord_ci, m2, c, depth + 1)]
+
+
+def _result_guard_flags(coord_ci, raised=()) -> set:
+    """the boolean attributes of the coordinator (assigned False in __init__) that occur in the conditions guarding its result calls, or are among `raised`
+    (attributes somebody else sets to True on it)."""
+    init = coord_ci.methods.get("__init__")
+    false_attrs = {t.attr for n in (walk_body(init) if init is not None else []) if isinstance(n, ast.Assign) and source.is_const(n.value, False) for t in n.targets if is_self_attr(t)}
+    used = set()
+    for m, n in _result_calls(coord_ci):
+        for chain in _guard_chains(coord_ci, m, n):
+            for t, _ in chain:
+                used |= {x.attr for x in ast.walk(t) if is_self_attr(x)}
+    return (used | set(raised)) & false_attrs
+
+
+def _allowed_flag_envs(chain, flags) -> list:
+    """assignments of the flags under which every (test, polarity) of the chain can hold. Atoms that depend on the flags only are EVALUATED (`not self.error`,
+    `self.error is False`, `self.cancelled == True` ...); any other atom is a free boolean (the call is reachable under an assignment if SOME value of those atoms lets it through)."""
+    import itertools
+    from sa.sym import atoms_of, bool_eval
+
+    names = sorted(flags)
+
+    def value(n, env):
+        try:
+            return bool(_ev(n, {"self": Record(**env)}))
+        except Exception:  # CannotEval, or a Python error on the stand-in: not an atom over the flags
+            return None
+
+    foreign = []
+    for t, _ in chain:
+        for a_ in atoms_of(t):
+            if value(a_, dict.fromkeys(names, False)) is None and u(a_) not in foreign:
+                foreign.append(u(a_))
+    if len(foreign) > 6:
+        raise UnknownAtom(", ".join(foreign[:3]))
+    out = []
+    for vals in itertools.product([False, True], repeat=len(names)):
+        env = dict(zip(names, vals))
+        for fv in itertools.product([False, True], repeat=len(foreign)):
+            fenv = dict(zip(foreign, fv))
+
+            def atom(n, env=env, fenv=fenv):
+                if isinstance(n, ast.BoolOp) or (isinstance(n, ast.UnaryOp) and isinstance(n.op, ast.Not)):
+                    return None
+                v = value(n, env)
+                return fenv[u(n)] if v is None else v
+
+            if all(bool_eval(t, atom) == pol for t, pol in chain):
+                out.append(env)
+                break
+    return out
+
+
+def _flag_stores(model, a, f, flags: set, attr_cls: dict):
+    """(nodes of f that set one of the flags to True, what f sets to True instead: other attributes, or a flag on some paths of a callee only): direct stores
+    `<x>.<flag> = True`, and calls of a method of the class / of an object held in an attribute (attr_cls) that does so on every path."""
+    nodes, foreign = [], []
+    for n in walk_body(f):
+        if isinstance(n, ast.Assign) and source.is_const(n.value, True):
+            for t in n.targets:
+                if isinstance(t, ast.Attribute):
+                    (nodes if t.attr in flags else foreign).append(n if t.attr in flags else t.attr)
+        elif isinstance(n, ast.Call) and isinstance(n.func, ast.Attribute):
+            callee = None
+            if is_self_attr(n.func) and n.func.attr != "send":
+                callee = model.table.method(a, n.func.attr)
+            elif is_self_attr(n.func.value) and n.func.value.attr in attr_cls:
+                callee = model.table.method(attr_cls[n.func.value.attr], n.func.attr)
+            if callee is not None and callee is not f:
+                gh = cfg_of(callee)
+                st = [x for x in walk_body(callee) if isinstance(x, ast.Assign) and source.is_const(x.value, True) and any(isinstance(t, ast.Attribute) and t.attr in flags for t in x.targets)]
+                if st and gh.must_pass(gh.entry, [gh.node_of(x) for x in st]):
+                    nodes.append(n)
+                elif st:
+                    foreign.append(f"a flag in {callee.name}() on some paths only")
+    return nodes, foreign
+
+
+def _opaque_calls(f, known=()) -> list:
+    """calls in f whose effect the rule has not looked at: neither logging, nor one of the known calls (or part of their arguments), nor a builtin conversion."""
+    inside = {id(x) for k in known for x in ast.walk(k)}
+    return [c for c in walk_body(f) if isinstance(c, ast.Call) and id(c) not in inside and not _log_noise(c) and dotted(c.func) not in ("str", "repr", "format", "len", "isinstance", "getattr", "vars")]
+
+
 def _truthy_edge(test: ast.AST, var: str):
     """CFG edge label ('true' / 'false') an `if test:` takes when local `var` holds an exception object, provided the test decides on var alone
     (the other value, None, takes the other edge); None if the test is not such a decision."""
@@ -252,7 +678,7 @@ def run(chk):
                     continue
                 if not (model.is_package_message(t) or t == "WakeupMessage"):
                     continue
-            g = handler_guard(f)
+            g = _handler_guard(f)
             inst = f"{a.name}.{hname}"
             if g is None and (a.name, hname) in UNGUARDED_OK:
                 # verify the reason: the handler raises only in the else-arm of a payload comparison with a class constant, and the
@@ -279,7 +705,11 @@ def run(chk):
                 other_calls = [n for n in walk_body(f) if isinstance(n, ast.Call) and not _log_noise(n)
                                and not (isinstance(n.func, ast.Attribute) and is_self_attr(n.func.value) is False and isinstance(n.func.value, ast.Name) and n.func.value.id == "self")
                                and last_attr(n.func) not in ("RallyAssertionError",)]
-                ok = bool(consts) and payloads <= consts and not raises_elsewhere
+                if not consts:
+                    # the reason of the tabled exception cannot be re-established on this shape (no comparison of the payload with a constant was located): not recognised
+                    chk.unknown("O9.2", f"{inst} is unguarded and the payload comparison that makes it harmless was not located", f)
+                    continue
+                ok = payloads <= consts and not raises_elsewhere
                 chk.ob("O9.2", inst, ok, f, f"tabled exception: compared constants {sorted(consts)}, wakeup payloads {sorted(payloads)}; {UNGUARDED_OK[(a.name, hname)]}")
                 if other_calls:
                     chk.adv("O9.2", f"{inst} is unguarded and calls {[short(c, 40) for c in other_calls][:3]}", f)
@@ -293,7 +723,7 @@ def run(chk):
             ps = params_of(f)
             if hname.startswith("receiveMsg_") and len(ps) >= 2:
                 handler_msg[id(f)] = (ps[1], hname[len("receiveMsg_"):])
-    addr = {a.name: model.address_attrs(a) for a in model.actors}
+    addr = {a.name: _address_attrs(model, a) for a in model.actors}
 
     # ---- O9.3 forwarding chain --------------------------------------------------------------------
     chk.rule("O9.3", "every actor class forwards BenchmarkFailure on every path to its parent address (attribute assigned from the sender of its "
@@ -301,19 +731,23 @@ def run(chk):
              "a failure detected below that class never reaches race control: the race hangs or ends as success")
     root = model.actor("BenchmarkActor")
     parent_attr = {}
+    fwd_state = {}
+    fwd_sites = {}
     for a in model.actors:
-        f = a.methods.get("receiveMsg_BenchmarkFailure")
+        f = model.table.method(a, "receiveMsg_BenchmarkFailure")
         inst = f"{a.name}.receiveMsg_BenchmarkFailure"
         if f is None:
             chk.ob("O9.3", inst, False, a.node, "class has no receiveMsg_BenchmarkFailure (failures sent to it by no_retry are dropped)")
+            fwd_state[a.name] = "bad"
             continue
         ps = params_of(f)
         msgp = ps[1] if len(ps) > 1 else "msg"
         g = cfg_of(f)
-        sends = []
-        for c in source.calls_in(f, attr="send"):
-            if len(c.args) >= 2 and isinstance(c.args[1], ast.Name) and c.args[1].id == msgp and send_target_ok(c, set(addr[a.name]), f):
-                sends.append(c)
+        # sites that pass the message on to an address: self.send(<address>, <msg>) in the handler, or a helper method of the class that is handed the message and does so on
+        # every path; a send of the message whose target is not recognised as an address is "not recognised", never "does not forward"
+        rec, unrec = _report_sites(model, a, f, {msgp}, set(addr[a.name]), accept_failure=True)  # a freshly built BenchmarkFailure (the message re-wrapped) notifies the parent just as well
+        fwd_sites[a.name] = rec
+        sends = [c for c, _ in rec]
         nodes = [g.node_of(c) for c in sends]
         ok = bool(nodes) and g.must_pass(g.entry, nodes)
         detail = f"forwarding sends: {[short(c, 60) for c in sends]}"
@@ -322,40 +756,62 @@ def run(chk):
             p = g.find_path(g.entry, g.exit, avoid=nodes)
             path = g.describe_path(p) if p else None
             detail += " — a normal-exit path bypasses the forwarding send"
-        chk.ob("O9.3", inst, ok, f, detail, path=path)
-        if sends:
-            t = sends[0].args[0]
-            parent_attr[a.name] = t.attr if is_self_attr(t) else "reply_to|sender"
+        if not ok and unrec:
+            chk.unknown("O9.3", f"{inst}: the message is passed on by `{short(unrec[0], 60)}`, whose target is not recognised as an actor address", unrec[0])
+            fwd_state[a.name] = "unknown"
+        else:
+            chk.ob("O9.3", inst, ok, f, detail, path=path)
+            fwd_state[a.name] = "ok" if ok else "bad"
+        leaves = [lf for _, lfs in rec for lf in lfs]
+        if leaves:
+            parent_attr[a.name] = _leaf_parent_attr(leaves[0])
         # a failure the actor addressed to ITSELF (no_retry around a wake-up handler, or the actor's own handler of a wake-up: the sender of a wake-up is the actor, and a
         # wake-up carries no reply_to) must LEAVE the actor when it is forwarded; evaluated for sender == own address, message without reply_to, every address attribute set
-        for c in sends:
-            try:
-                val = _address_value(c.args[0], {ps[2] if len(ps) > 2 else "sender": "SELF", msgp: _NO_REPLY_TO}, a.node)
-            except _NoValue as e:
-                chk.unknown("O9.3", f"{a.name}.receiveMsg_BenchmarkFailure: forwarding target `{short(c.args[0], 60)}` cannot be evaluated ({e})", c)
-                continue
-            chk.ob("O9.3", f"{a.name}: a failure the actor addressed to itself (failing wake-up) is forwarded to another actor", val != "SELF", c,
-                   f"target `{short(c.args[0], 60)}` = {val} for sender == own address and a message without reply_to" + ("" if val != "SELF" else
-                   ": the failure is sent to the actor itself again and circulates forever; race control is never told, the race ends as a success"),
-                   key=f"{loc(a.node).split(':')[0]}:{a.name}.receiveMsg_BenchmarkFailure:self-addressed-failure-leaves")
-    # race control sets the error flag before forwarding
-    f = root.methods.get("receiveMsg_BenchmarkFailure")
+        for c, lfs in rec:
+            for lf in lfs:
+                tgt = lf[0].args[0]
+                try:
+                    val = _leaf_target_value(lf, {ps[2] if len(ps) > 2 else "sender": "SELF", msgp: _NO_REPLY_TO}, a.node)
+                except _NoValue as e:
+                    chk.unknown("O9.3", f"{a.name}.receiveMsg_BenchmarkFailure: forwarding target `{short(tgt, 60)}` cannot be evaluated ({e})", c)
+                    continue
+                chk.ob("O9.3", f"{a.name}: a failure the actor addressed to itself (failing wake-up) is forwarded to another actor", val != "SELF", c,
+                       f"target `{short(tgt, 60)}` = {val} for sender == own address and a message without reply_to" + ("" if val != "SELF" else
+                       ": the failure is sent to the actor itself again and circulates forever; race control is never told, the race ends as a success"),
+                       key=f"{loc(a.node).split(':')[0]}:{a.name}.receiveMsg_BenchmarkFailure:self-addressed-failure-leaves")
+    # race control sets the flag that suppresses the results before forwarding. The flags are found by role: the boolean attributes of the coordinator (False after
+    # construction) that guard the result calls of its completion routine - whatever they are called
+    coord_ci = model.table.get("BenchmarkCoordinator")
+    attr_cls = _attr_classes(model, root)
+    # ... plus the boolean attributes of the coordinator that race control's failure / cancel handlers raise: a flag that is raised but no longer consulted must show up
+    # as "results reachable although the flag is set" (O9.6), not silently drop out of the table
+    raised = {t.attr for hn_ in ("receiveMsg_BenchmarkFailure", "receiveMsg_BenchmarkCancelled", "receiveMsg_PoisonMessage") for f_ in [model.table.method(root, hn_)] if f_ is not None
+              for n in walk_body(f_) if isinstance(n, ast.Assign) and source.is_const(n.value, True) for t in n.targets
+              if isinstance(t, ast.Attribute) and is_self_attr(t.value) and attr_cls.get(t.value.attr) is coord_ci}
+    guard_flags = _result_guard_flags(coord_ci, raised)
+    if not guard_flags:
+        raise AnchorMissing("BenchmarkCoordinator: no boolean attribute guards the result calls of the completion routine")
+    f = model.table.method(root, "receiveMsg_BenchmarkFailure")
     if f is not None:
         g = cfg_of(f)
-        sets = [n for n in walk_body(f) if isinstance(n, ast.Assign) and any(isinstance(t, ast.Attribute) and t.attr == "error" for t in n.targets)
-                and source.is_const(n.value, True)]
-        sends = [c for c in source.calls_in(f, attr="send")]
-        ok = bool(sets) and bool(sends) and all(g.dominated_by_nodes(g.node_of(s), [g.node_of(x) for x in sets]) for s in sends)
-        chk.ob("O9.3", "BenchmarkActor: error flag set before forward", ok, f, f"flag stores={len(sets)} sends={len(sends)}")
-        fc = root.methods.get("receiveMsg_BenchmarkCancelled")
+        sets, foreign = _flag_stores(model, root, f, guard_flags, attr_cls)
+        sends = [c for c in source.calls_in(f, attr="send")] + [c for c, _ in fwd_sites.get(root.name, []) if last_attr(c.func) != "send"]
+        if not sets and not foreign and (not sends or _opaque_calls(f, sends)):
+            chk.unknown("O9.3", f"BenchmarkActor.receiveMsg_BenchmarkFailure: neither a store to one of the result-guarding flags {sorted(guard_flags)} nor the forwarding send was located", f)
+        else:
+            ok = bool(sets) and bool(sends) and all(g.dominated_by_nodes(g.node_of(s), [g.node_of(x) for x in sets]) for s in sends)
+            chk.ob("O9.3", "BenchmarkActor: error flag set before forward", ok, f, f"flag stores={len(sets)} sends={len(sends)}" + (f"; sets {foreign}, which does not guard the results" if foreign and not sets else ""))
+        fc = model.table.method(root, "receiveMsg_BenchmarkCancelled")
         if fc is None:
             chk.ob("O9.3", "BenchmarkActor.receiveMsg_BenchmarkCancelled", False, root.node, "no cancel handler")
         else:
             gc = cfg_of(fc)
-            sets = [n for n in walk_body(fc) if isinstance(n, ast.Assign) and any(isinstance(t, ast.Attribute) and t.attr == "cancelled" for t in n.targets)
-                    and source.is_const(n.value, True)]
-            ok = bool(sets) and gc.must_pass(gc.entry, [gc.node_of(s) for s in sets])
-            chk.ob("O9.3", "BenchmarkActor: cancelled flag set on cancel", ok, fc, f"flag stores={len(sets)}")
+            sets, foreign = _flag_stores(model, root, fc, guard_flags, attr_cls)
+            if not sets and not foreign and _opaque_calls(fc, source.calls_in(fc, attr="send")):
+                chk.unknown("O9.3", f"BenchmarkActor.receiveMsg_BenchmarkCancelled: no store to one of the result-guarding flags {sorted(guard_flags)} was located", fc)
+            else:
+                ok = bool(sets) and gc.must_pass(gc.entry, [gc.node_of(s) for s in sets])
+                chk.ob("O9.3", "BenchmarkActor: cancelled flag set on cancel", ok, fc, f"flag stores={len(sets)}" + (f"; sets {foreign}, which does not guard the results" if foreign and not sets else ""))
     # parent chain: attr assigned from sender of bootstrap message M; who sends M?
     senders_of: dict[str, set] = {}
     for a in model.actors:
@@ -419,6 +875,11 @@ def run(chk):
                 reach = True
                 break
             work.extend(parents.get(x, ()))
+        if not reach and fwd_state.get(a.name) != "ok":
+            continue  # the forwarding send itself was reported above (missing / not recognised): there is no parent attribute to follow
+        if not reach and (not parents.get(a.name) or "?" in parents.get(a.name, ())):
+            chk.unknown("O9.3", f"{a.name}: who sets the parent address `{parent_attr.get(a.name)}` (the sender of which bootstrap message) could not be derived", a.node)
+            continue
         chk.ob("O9.3", f"{a.name}: parent chain reaches race()", reach, a.node, f"parent attr={parent_attr.get(a.name)} parents={sorted(parents.get(a.name, []))}")
 
     # cleanup that runs BEFORE the forwarding send must not be able to block it for good: the driver actor closes the driver (metrics store) first; a failing close
@@ -426,31 +887,60 @@ def run(chk):
     met_m = repo.module("esrally/metrics.py")
     chk.use(met_m)
     DA = model.actor("DriverActor")
+    da_objs = _attr_classes(model, DA)  # the plain objects the driver actor delegates to (self.driver = Driver(...)), found by construction
+    closers = []  # methods of those objects that run before a failure / cancellation is forwarded
+
+    def pre_ok(c, depth=0):
+        """the call is a method of a delegate object (checked for re-entrancy below), or a helper method of the actor that does nothing else"""
+        if isinstance(c.func, ast.Attribute) and is_self_attr(c.func.value) and c.func.value.attr in da_objs:
+            m_ = model.table.method(da_objs[c.func.value.attr], c.func.attr)
+            if m_ is not None:
+                if not any(m_ is x for x in closers):
+                    closers.append(m_)
+                return True
+        if is_self_attr(c.func) and depth < 2:
+            h_ = model.table.method(DA, c.func.attr)
+            if h_ is not None:
+                return all(pre_ok(x, depth + 1) for x in walk_body(h_) if isinstance(x, ast.Call) and not _log_noise(x))
+        return False
+
     for hn in ("receiveMsg_BenchmarkFailure", "receiveMsg_BenchmarkCancelled", "receiveMsg_PoisonMessage"):
         f = DA.methods.get(hn)
         if f is None:
             continue
         g = cfg_of(f)
-        fwd = [c for c in source.calls_in(f, attr="send")]
-        pre = [c for c in walk_body(f) if isinstance(c, ast.Call) and not _log_noise(c) and last_attr(c.func) not in ("send", "format", "str", "BenchmarkFailure", "BenchmarkCancelled")
+        rec_, _ = _report_sites(model, DA, f, {params_of(f)[1]} if len(params_of(f)) > 1 else set(), set(addr[DA.name]), accept_failure=True)
+        fwd = [c for c in source.calls_in(f, attr="send")] + [c for c, _ in rec_ if last_attr(c.func) != "send"]
+        inside = {id(x) for s_ in fwd for x in ast.walk(s_)}
+        pre = [c for c in walk_body(f) if isinstance(c, ast.Call) and id(c) not in inside and not _log_noise(c) and last_attr(c.func) not in ("send", "format", "str", "BenchmarkFailure", "BenchmarkCancelled")
+               and not _harmless(c)
                and any(g.path_exists(g.node_of(c), g.node_of(s_)) and g.node_of(c) is not g.node_of(s_) for s_ in fwd)]
         for c in pre:
-            ok = u(c.func) == "self.driver.close"
-            chk.ob("O9.3", f"DriverActor.{hn}: the only work before forwarding is the re-entrant driver close", ok, c, short(c, 60), key=f"esrally/driver/driver.py:DriverActor.{hn}:pre-forward:{short(c, 40)}")
-    dcl = drv.methods(drv.cls("Driver")).get("close")
+            chk.ob("O9.3", f"DriverActor.{hn}: the only work before forwarding is the re-entrant driver close", pre_ok(c), c, short(c, 60), key=f"esrally/driver/driver.py:DriverActor.{hn}:pre-forward:{short(c, 40)}")
     mcl = met_m.methods(met_m.cls("MetricsStore")).get("close")
-    if dcl is None or mcl is None:
+    if not closers:
+        dcl = drv.methods(drv.cls("Driver")).get("close")  # no clean-up precedes the forwarding sends (any more): the driver's close is still looked at
+        closers = [dcl] if dcl is not None else []
+    if not closers or mcl is None:
         raise AnchorMissing("Driver.close / MetricsStore.close")
-    sc = [c for c in source.calls_in(dcl, attr="close")]
-    ok = bool(sc) and all(pat.guarded(c, "self.metrics_store.opened") is not None for c in sc)
-    chk.ob("O9.3", "Driver.close closes the metrics store only while it is marked open", ok, sc[0] if sc else dcl, "")
+    # the store's "open" mark, by role: the attribute(s) MetricsStore.close sets to False
+    marks = {t.attr for n in walk_body(mcl) if isinstance(n, ast.Assign) and source.is_const(n.value, False) for t in n.targets if is_self_attr(t)}
+    for dcl in closers:
+        # the call that closes the store: <receiver>.<MetricsStore.close's name>() - guarded by <receiver>.<mark>
+        sc = [c for c in source.calls_in(dcl, attr=mcl.name) if isinstance(c.func, ast.Attribute)]
+        if not sc:
+            chk.unknown("O9.3", f"{source.qualname(dcl)} (runs before a failure is forwarded): the call that closes the metrics store was not located", dcl)
+            continue
+        ok = bool(marks) and all(any(pat.guarded(c, f"E_r.{mk}", binds={"r": u(c.func.value)}) is not None for mk in marks) for c in sc)
+        chk.ob("O9.3", "Driver.close closes the metrics store only while it is marked open", ok, sc[0], "" if ok else f"marks cleared by MetricsStore.{mcl.name}: {sorted(marks)}")
     gm_ = cfg_of(mcl)
-    clr = [n for n in walk_body(mcl) if isinstance(n, ast.Assign) and any(is_self_attr(t, "opened") for t in n.targets) and source.is_const(n.value, False)]
-    fall = [c for c in walk_body(mcl) if isinstance(c, ast.Call) and not _log_noise(c)]
+    clr = [n for n in walk_body(mcl) if isinstance(n, ast.Assign) and any(is_self_attr(t) and t.attr in marks for t in n.targets) and source.is_const(n.value, False)]
+    fall = [c for c in walk_body(mcl) if isinstance(c, ast.Call) and not _harmless(c)]
     ok = len(clr) >= 1 and all(gm_.dominated_by_nodes(gm_.node_of(c), [gm_.node_of(x) for x in clr]) for c in fall)
     late = [c for c in fall if not (clr and gm_.dominated_by_nodes(gm_.node_of(c), [gm_.node_of(x) for x in clr]))]
     chk.ob("O9.3", "MetricsStore.close marks the store closed before anything in it can fail", ok, late[0] if late else mcl,
-           "" if ok else f"`{short(late[0], 40)}` runs while the store is still marked open: if it keeps failing, every re-delivery of BenchmarkFailure fails in close() again and the failure is never forwarded",
+           "" if ok else (f"`{short(late[0], 40)}` runs while the store is still marked open: if it keeps failing, every re-delivery of BenchmarkFailure fails in close() again and the failure is never forwarded"
+                          if late else "the store is never marked closed"),
            key="esrally/metrics.py:MetricsStore.close:closed-before-fallible")
 
     # a failing parameter source / scheduler must not be mistaken for the normal end of the task
@@ -472,28 +962,58 @@ def run(chk):
             ok = names == ["StopIteration"]
             chk.ob("O9.5c", "schedule generator ends normally only on StopIteration", ok, h, f"except {', '.join(names) or '(bare)'} -> ends the schedule without error",
                    key=f"esrally/driver/driver.py:ScheduleHandle.__call__:swallow:{len([x for x in walk_body(shc) if isinstance(x, ast.ExceptHandler) and x.lineno < h.lineno])}")
-    chk.ob("O9.5c", "exhaustion handlers located", n_h >= 2, shc, f"{n_h} handler(s)")
+    # located by role: every `yield` of the generator (one parameter-source pull per yield) lies in a try one of whose handlers ends the schedule; how many loops / try
+    # statements that takes does not matter (two copies of the loop with a try inside each, or one loop inside one try)
+    yields_ = [n for n in walk_body(shc) if isinstance(n, (ast.Yield, ast.YieldFrom))]
+    uncovered = [y for y in yields_ if not any(isinstance(t_, ast.Try) and any(y in list(ast.walk(b_)) for b_ in t_.body) and any(not any(isinstance(x, ast.Raise) for x in ast.walk(h)) for h in t_.handlers)
+                                               for t_ in source.ancestors(y))]
+    if n_h < 1 or not yields_ or uncovered:
+        chk.unknown("O9.5c", f"ScheduleHandle.__call__: the handler that ends the schedule on exhaustion was not located for every yield ({n_h} handler(s), {len(yields_)} yield(s), "
+                    f"{len(uncovered)} outside any such try)", shc)
+    else:
+        chk.ob("O9.5c", "exhaustion handlers located", True, shc, f"{n_h} handler(s) cover {len(yields_)} yield(s)")
 
     # no_retry reports a handler's failure to the SENDER of the message; once the handler has asked an actor to exit, nothing that can fail may follow in that handler
     # (the report would go to an actor that is already gone and the race would hang)
     chk.rule("O9.2x", "in a handler guarded by no_retry no fallible work follows a send of ActorExitRequest: only sends, logging and plain stores may come after it", 1,
              "a failure at the very end (final flush, results calculation, race store) is reported to an exited actor: race() gets neither a failure nor Success")
     n_x = 0
+
+    def exit_sites(a, fn, depth=0):
+        """[(node in fn after which the addressee has been told to exit, the exit-request send itself)]: self.send(<x>, ActorExitRequest()) - the payload built in place or via a
+        local -, or a call of a helper method of the class that contains such a send (the helper's own tail is checked as well)."""
+        out = [(c, c) for c in source.calls_in(fn, attr="send") if _sends(c, fn, "ActorExitRequest")]
+        if depth < 2:
+            for c in walk_body(fn):
+                if isinstance(c, ast.Call) and is_self_attr(c.func) and c.func.attr != "send":
+                    h_ = model.table.method(a, c.func.attr)
+                    if h_ is not None and h_ is not fn:
+                        out += [(c, leaf) for _, leaf in exit_sites(a, h_, depth + 1)]
+        return out
+
+    def fallible_after(fn, x):
+        g_ = cfg_of(fn)
+        in_sends = {id(n_) for s_ in source.calls_in(fn, attr="send") for n_ in ast.walk(s_)}
+        return [c for c in walk_body(fn) if isinstance(c, ast.Call) and c is not x and not _harmless(c) and last_attr(c.func) not in ("send", "ActorExitRequest") and id(c) not in in_sends
+                and not any(c is n_ for n_ in ast.walk(x)) and g_.node_of(c) is not g_.node_of(x) and g_.path_exists(g_.node_of(x), g_.node_of(c), edge_ok=g_.normal_edge)]
+
     for a in model.actors:
         for hn, f in model.handlers(a).items():
-            if handler_guard(f) != "no_retry":
+            if _handler_guard(f) != "no_retry":
                 continue
-            g = cfg_of(f)
-            exits_ = [c for c in source.calls_in(f, attr="send") if len(c.args) >= 2 and isinstance(c.args[1], ast.Call) and last_attr(c.args[1].func) == "ActorExitRequest"]
-            for x in exits_:
+            for x, leaf in exit_sites(a, f):
                 n_x += 1
-                after = [c for c in walk_body(f) if isinstance(c, ast.Call) and c is not x and not _log_noise(c) and last_attr(c.func) not in ("send", "ActorExitRequest")
-                         and not any(c in list(ast.walk(s_)) for s_ in source.calls_in(f, attr="send"))
-                         and g.node_of(c) is not g.node_of(x) and g.path_exists(g.node_of(x), g.node_of(c), edge_ok=g.normal_edge)]
-                chk.ob("O9.2x", f"{a.name}.{hn}: nothing fallible after the exit request to {u(x.args[0])}", not after, after[0] if after else x,
-                       "" if not after else f"`{short(after[0], 60)}` can fail after {u(x.args[0])} was told to exit; no_retry then reports the failure to the sender, which no longer exists",
+                after = fallible_after(f, x)
+                if leaf is not x:  # the send sits in a helper: what follows it inside the helper counts, too
+                    after += [c for fn_ in {id(source.enclosing_func(leaf)): source.enclosing_func(leaf)}.values() for c in fallible_after(fn_, leaf)]
+                tgt = u(leaf.args[0])
+                chk.ob("O9.2x", f"{a.name}.{hn}: nothing fallible after the exit request to {tgt}", not after, after[0] if after else x,
+                       "" if not after else f"`{short(after[0], 60)}` can fail after {tgt} was told to exit; no_retry then reports the failure to the sender, which no longer exists",
                        key=f"{a.module.relpath}:{a.name}.{hn}:after-exit-request")
-    chk.ob("O9.2x", "exit requests in guarded handlers located", n_x >= 1, model.actor("BenchmarkActor").node, f"{n_x} site(s)")
+    if n_x >= 1:
+        chk.ob("O9.2x", "exit requests in guarded handlers located", True, model.actor("BenchmarkActor").node, f"{n_x} site(s)")
+    else:
+        chk.unknown("O9.2x", "no send of ActorExitRequest was located in a handler guarded by no_retry (the rule has nothing to look at)", model.actor("BenchmarkActor").node)
 
     # a worker process that dies is reported whichever worker it is: the failure for an exited child is sent under exactly {the child is one of the workers, we are not exiting}
     chk.rule("O9.3w", "child processes that die are reported: DriverActor.receiveMsg_ChildActorExited sends BenchmarkFailure to race control for every exited child that is a worker "
@@ -528,12 +1048,28 @@ def run(chk):
         return True
 
     mp_ = params_of(cae)[1]
-    fs_ = [c for c in source.calls_in(cae, attr="send") if is_failure_send(c)]
-    chk.ob("O9.3w", "a failure is sent for an exited worker", len(fs_) >= 1, fs_[0] if fs_ else cae, f"{len(fs_)} failure send(s)")
+    # sites that report the exit: a BenchmarkFailure sent in the handler (built in place or via a local), or a helper method of the class that sends one on every path;
+    # whether the target is an address is O9.4's business, here only WHEN the report fires matters
+    rec_, unrec_ = _report_sites(model, DA, cae, set(), set(addr[DA.name]), accept_failure=True)
+    fs_ = [c for c, _ in rec_] + unrec_
+
+    def _delegates(fn, msgp):
+        """method calls on the actor / on an object it holds that are handed the message (or a field of it): the decision may have moved there"""
+        return [c for c in walk_body(fn) if isinstance(c, ast.Call) and isinstance(c.func, ast.Attribute) and (is_self_attr(c.func) or is_self_attr(c.func.value)) and not _log_noise(c)
+                and last_attr(c.func) != "send" and any(isinstance(x, ast.Name) and x.id == msgp for a_ in list(c.args) + [k.value for k in c.keywords] for x in ast.walk(a_))]
+
+    if not fs_ and _delegates(cae, mp_):
+        chk.unknown("O9.3w", f"DriverActor.receiveMsg_ChildActorExited: no failure send located; the message is handed to `{short(_delegates(cae, mp_)[0], 60)}`, which the rule does not follow", cae)
+    else:
+        chk.ob("O9.3w", "a failure is sent for an exited worker", len(fs_) >= 1, fs_[0] if fs_ else cae, f"{len(fs_)} failure send(s)")
+    # the attribute(s) that say "asked to exit", by role: what the driver actor's handler of ActorExitRequest stores
+    exr_ = DA.methods.get("receiveMsg_ActorExitRequest")
+    exit_marks = {t.attr: n.value.value for n in (walk_body(exr_) if exr_ is not None else []) if isinstance(n, ast.Assign) and isinstance(n.value, ast.Constant) for t in n.targets if is_self_attr(t)}
     SCEN = [("worker 0 dies while the benchmark runs", "W0", "running", "every-worker"), ("worker 1 dies while the benchmark runs", "W1", "running", "every-worker:1"),
             ("a track preparator dies while the track is being prepared", "P0", "preparing", "preparator")]
-    for what, child, status, kk in SCEN:
-        env = {mp_: Record(childAddress=child), "self": Record(driver=Record(workers=["W0", "W1"]), children=["P0"], status=status)}
+    for what, child, status, kk in SCEN if (fs_ or not _delegates(cae, mp_)) else []:
+        not_exiting = {k_: ((not v_) if isinstance(v_, bool) else status) for k_, v_ in exit_marks.items()}
+        env = {mp_: Record(childAddress=child), "self": Record(**{"driver": Record(workers=["W0", "W1"]), "children": ["P0"], "status": status, **not_exiting})}
         res = [_fires(c, cae, env) for c in fs_]
         if any(r is None for r in res) and not any(r is True for r in res):
             chk.unknown("O9.3w", f"DriverActor.receiveMsg_ChildActorExited: the conditions of a failure send cannot be evaluated for `{what}`", cae)
@@ -555,10 +1091,13 @@ def run(chk):
     else:
         exr = TPA.methods.get("receiveMsg_ActorExitRequest")
         flags = {t.attr for n in (walk_body(exr) if exr is not None else []) if isinstance(n, ast.Assign) and source.is_const(n.value, True) for t in n.targets if is_self_attr(t)}
-        tf_ = [c for c in source.calls_in(tcae, attr="send") if is_failure_send(c) and send_target_ok(c, set(addr[TPA.name]), tcae)]
+        trec_, tunrec_ = _report_sites(model, TPA, tcae, set(), set(addr[TPA.name]), accept_failure=True)
+        tf_ = [c for c, _ in trec_]
         env = {params_of(tcae)[1]: Record(childAddress="T0"), "self": Record(children=["T0", "T1"], **{f_: False for f_ in flags})}
         res = [_fires(c, tcae, env) for c in tf_]
-        if any(r is None for r in res) and not any(r is True for r in res):
+        if not tf_ and (tunrec_ or _delegates(tcae, params_of(tcae)[1])):
+            chk.unknown("O9.3w", "TrackPreparationActor.receiveMsg_ChildActorExited: the failure send to the driver was not located (target not recognised as an address, or the message is handed on)", tcae)
+        elif any(r is None for r in res) and not any(r is True for r in res):
             chk.unknown("O9.3w", "TrackPreparationActor.receiveMsg_ChildActorExited: the conditions of the failure send cannot be evaluated", tcae)
         else:
             ok = any(r is True for r in res)
@@ -567,19 +1106,37 @@ def run(chk):
 
     # completion is announced LAST: once BenchmarkComplete is on its way race control computes, stores and prints the results; anything that can still fail at the final join point
     # (closing the driver's metrics store = its last flush, deleting API keys) therefore runs before it
-    chk.rule("O9.6b", "at the final join point nothing fallible follows the call that announces completion (on_benchmark_complete): only logging may come after it", 1,
+    chk.rule("O9.6b", "at the final join point nothing fallible follows the call that announces completion (the driver-actor method that sends BenchmarkComplete, today "
+             "on_benchmark_complete; also looked for in helper methods of Driver and followed into their callers): only logging may come after it", 1,
              "the last flush of the metrics store fails after completion was announced: results are stored and printed, race() reports success")
     DRV = drv.cls("Driver")
-    jr_ = drv.methods(DRV).get("joinpoint_reached")
-    if jr_ is None:
-        raise AnchorMissing("Driver.joinpoint_reached")
-    gj = cfg_of(jr_)
-    obc = [c for c in walk_body(jr_) if isinstance(c, ast.Call) and last_attr(c.func) == "on_benchmark_complete"]
+    # by role: the announcing call is a call of a driver-actor method that sends BenchmarkComplete (whatever it is called), made from a method of Driver; what may follow it
+    # is looked at in that method and in the Driver methods that call it (the final join point may have been split into helpers)
+    announcers = {m_.name for m_ in DA.methods.values() if any(_sends(c, m_, "BenchmarkComplete") for c in source.calls_in(m_, attr="send"))}
+    if not announcers:
+        raise AnchorMissing("no method of DriverActor sends BenchmarkComplete")
+    dmeths = drv.methods(DRV)
+
+    def fallible_after_call(fn, x):
+        g_ = cfg_of(fn)
+        return [c for c in walk_body(fn) if isinstance(c, ast.Call) and c is not x and not _harmless(c) and not any(c is n_ for a_ in list(x.args) + [k.value for k in x.keywords] for n_ in ast.walk(a_))
+                and g_.node_of(c) is not g_.node_of(x) and g_.path_exists(g_.node_of(x), g_.node_of(c), edge_ok=g_.normal_edge)]
+
+    def after_upwards(fn, x, depth=0):
+        out = fallible_after_call(fn, x)
+        if depth < 2:
+            for m_ in dmeths.values():
+                if m_ is not fn:
+                    for c in walk_body(m_):
+                        if isinstance(c, ast.Call) and is_self_attr(c.func) and c.func.attr == fn.name:
+                            out += after_upwards(m_, c, depth + 1)
+        return out
+
+    obc = [(m_, c) for m_ in dmeths.values() for c in walk_body(m_) if isinstance(c, ast.Call) and isinstance(c.func, ast.Attribute) and c.func.attr in announcers and not is_self_attr(c.func)]
     if not obc:
-        raise AnchorMissing("on_benchmark_complete(...) in Driver.joinpoint_reached")
-    for x in obc:
-        after = [c for c in walk_body(jr_) if isinstance(c, ast.Call) and c is not x and not _log_noise(c) and not any(c in list(ast.walk(a_)) for a_ in x.args)
-                 and gj.node_of(c) is not gj.node_of(x) and gj.path_exists(gj.node_of(x), gj.node_of(c), edge_ok=gj.normal_edge)]
+        raise AnchorMissing(f"no call of {sorted(announcers)} (the driver actor's announcement of BenchmarkComplete) in a method of Driver")
+    for m_, x in obc:
+        after = after_upwards(m_, x)
         chk.ob("O9.6b", "completion announced after the last fallible step of the final join point", not after, after[0] if after else x,
                "" if not after else f"`{short(after[0], 60)}` can still fail after BenchmarkComplete was sent", key="esrally/driver/driver.py:Driver.joinpoint_reached:complete-last")
 
@@ -590,21 +1147,27 @@ def run(chk):
         creates = any(source.calls_in(m, attr="createActor") for m in a.methods.values())
         if not creates:
             continue
-        f = a.methods.get("receiveMsg_PoisonMessage")
+        f = model.table.method(a, "receiveMsg_PoisonMessage")
         if f is None:
             chk.ob("O9.3p", f"{a.name}.receiveMsg_PoisonMessage", False, a.node, "creates child actors but has no PoisonMessage handler")
             continue
         g = cfg_of(f)
         ps = params_of(f)
-        sends = [c for c in source.calls_in(f, attr="send") if len(c.args) >= 2 and send_target_ok(c, set(addr[a.name]), f)
-                 and (is_failure_send(c) or (isinstance(c.args[1], ast.Name) and len(ps) > 1 and c.args[1].id == ps[1]))]
+        # reporting sites: a BenchmarkFailure (built in place or via a local) or the poison message itself sent to an address, in the handler or in a helper method of the
+        # class that does so on every path; a report whose target is not recognised as an address is "not recognised"
+        rec_, unrec_ = _report_sites(model, a, f, {ps[1]} if len(ps) > 1 else set(), set(addr[a.name]), accept_failure=True)
+        sends = [c for c, _ in rec_]
         nodes = [g.node_of(c) for c in sends]
         ok = bool(nodes) and g.must_pass(g.entry, nodes)
+        if not ok and unrec_:
+            chk.unknown("O9.3p", f"{a.name}.receiveMsg_PoisonMessage: the report `{short(unrec_[0], 60)}` goes to a target that is not recognised as an actor address", unrec_[0])
+            continue
         chk.ob("O9.3p", f"{a.name}.receiveMsg_PoisonMessage", ok, f, f"sends={[short(c, 70) for c in sends]}")
 
     # ---- O9.4 every failure message is sent -------------------------------------------------------
     chk.rule("O9.4", "every construction of BenchmarkFailure/BenchmarkCancelled in the package is the payload of send/ask/tell to an address "
-             "(address attribute, sender, getattr(msg,'reply_to',sender)); address attributes are never called", 15,
+             "(address attribute, sender, getattr(msg,'reply_to',sender); directly, via a single-assignment local, a factory method or a helper method that sends its parameter; "
+             "a target the rule cannot classify is 'not recognised', never a violation); address attributes are never called", 15,
              "the failure object is built and dropped (or an ActorAddress is 'called', raising TypeError): race control is never told")
     all_addr = set()
     for a in model.actors:
@@ -616,23 +1179,79 @@ def run(chk):
                 if cls is not None and cls.name in FAILURE_MESSAGES:
                     continue
                 chk.use(m)
-                p = source.parent(n)
+                e_ = n
+                while isinstance(source.parent(e_), ast.IfExp) and e_ is not source.parent(e_).test:
+                    e_ = source.parent(e_)  # `<failure> if c else <other message>`: what matters is where the conditional expression goes
+                p = source.parent(e_)
                 f = source.enclosing_func(n)
-                ok = False
+                cname = cls.name if cls is not None else None
+                attrs = set(addr.get(cname, {})) if cname else set()
+                aci = next((a_ for a_ in model.actors if a_.node is cls), None)
+                ok = False  # True: sent to an address; False: located and wrong; None: not recognised
                 detail = ""
-                if isinstance(p, ast.Call) and last_attr(p.func) in ("send", "ask", "tell") and len(p.args) >= 2 and p.args[1] is n:
-                    cname = cls.name if cls is not None else None
-                    attrs = set(addr.get(cname, {})) if cname else set()
-                    ok = send_target_ok(p, attrs, f)
-                    detail = f"payload of {short(p.func, 40)}(target={short(p.args[0], 50)})"
-                    if not ok:
-                        detail += " — target is not an address attribute / sender / reply_to"
-                elif isinstance(p, ast.Call) and p.func is not n and n in p.args:
-                    detail = f"passed to {short(p.func, 60)}(...) which is not a send sink"
+
+                def as_payload(sinks, what):
+                    """verdict for the message being the payload of the given send sinks: every target must be an address"""
+                    vs = [send_target_verdict(s_, attrs, source.enclosing_func(s_)) for s_ in sinks]
+                    d_ = f"{what} {short(sinks[0].func, 40)}(target={short(sinks[0].args[0], 50)})"
+                    if all(v is True for v in vs):
+                        return True, d_
+                    if any(v is False for v in vs):
+                        return False, d_ + " — target is not an address attribute / sender / reply_to"
+                    return None, d_ + " — target not recognised as an actor address"
+
+                def sent_by_helper(call_, argnode):
+                    """the message is handed to a helper method of the class: the helper sends that parameter (verdict of the targets), never sends it (False), or is unknown (None)"""
+                    callee = model.table.method(aci, call_.func.attr) if aci is not None and is_self_attr(call_.func) else None
+                    if callee is None:
+                        return None, f"passed to {short(call_.func, 60)}(...), which the rule does not follow"
+                    pn = next((k for k, v in source.bind_args(call_, callee).items() if v is argnode), None)
+                    sinks = [c for c in ast.walk(callee) if isinstance(c, ast.Call) and last_attr(c.func) in ("send", "ask", "tell") and len(c.args) >= 2
+                             and isinstance(_through_locals(c.args[1], callee), ast.Name) and _through_locals(c.args[1], callee).id == pn]
+                    if pn is None or not sinks:
+                        return False, f"passed to {short(call_.func, 60)}(...), which never sends it"
+                    return as_payload(sinks, f"handed to {callee.name}(), there payload of")
+
+                if isinstance(p, ast.Call) and last_attr(p.func) in ("send", "ask", "tell") and len(p.args) >= 2 and p.args[1] is e_:
+                    ok, detail = as_payload([p], "payload of")
+                elif isinstance(p, ast.Call) and p.func is not e_ and (any(a_ is e_ for a_ in p.args) or any(k.value is e_ for k in p.keywords)):
                     if is_self_attr(p.func) and p.func.attr in all_addr:
                         detail = f"address attribute self.{p.func.attr} is CALLED with the failure message instead of self.send(self.{p.func.attr}, ...)"
+                    elif _log_noise(p) or dotted(p.func) in ("str", "repr", "print"):
+                        detail = f"passed to {short(p.func, 60)}(...) which is not a send sink"
+                    else:
+                        ok, detail = sent_by_helper(p, e_)
+                elif isinstance(p, ast.Assign) and len(p.targets) == 1 and isinstance(p.targets[0], ast.Name) and f is not None and _ldefs(f).get(p.targets[0].id) is e_:
+                    # bound to a single-assignment local: the local must be the payload of a send (or be handed to a helper that sends it); merely logged / unused = dropped
+                    nm = p.targets[0].id
+                    sinks = [c for c in ast.walk(f) if isinstance(c, ast.Call) and last_attr(c.func) in ("send", "ask", "tell") and len(c.args) >= 2 and _through_locals(c.args[1], f) is e_]
+                    handed = [(c, a_) for c in ast.walk(f) if isinstance(c, ast.Call) and not _log_noise(c) and last_attr(c.func) not in ("send", "ask", "tell", "str", "repr")
+                              for a_ in list(c.args) + [k.value for k in c.keywords] if isinstance(a_, ast.Name) and a_.id == nm]
+                    returned = [r_ for r_ in ast.walk(f) if isinstance(r_, ast.Return) and isinstance(r_.value, ast.Name) and r_.value.id == nm]
+                    if sinks:
+                        ok, detail = as_payload(sinks, f"bound to `{nm}`, payload of")
+                    elif handed:
+                        ok, detail = sent_by_helper(*handed[0])
+                    elif returned:
+                        ok, detail = None, f"bound to `{nm}` and returned to the caller, which the rule does not follow"
+                    else:
+                        detail = f"constructed but not sent: {short(source.enclosing_stmt(n), 80)}"
+                elif isinstance(p, ast.Return) and aci is not None and f is not None and any(m_ is f for m_ in aci.node.body):
+                    # a factory method of the actor class: every call of it must be the payload of a send
+                    sites = [c for m_ in aci.methods.values() for c in ast.walk(m_) if isinstance(c, ast.Call) and is_self_attr(c.func) and c.func.attr == f.name]
+                    sinks = [source.parent(c) for c in sites if isinstance(source.parent(c), ast.Call) and last_attr(source.parent(c).func) in ("send", "ask", "tell")
+                             and len(source.parent(c).args) >= 2 and source.parent(c).args[1] is c]
+                    if sites and len(sinks) == len(sites):
+                        ok, detail = as_payload(sinks, f"returned by {f.name}(), whose result is the payload of")
+                    else:
+                        ok, detail = None, f"returned by {f.name}(); not every use of the result is recognised as the payload of a send"
+                elif isinstance(p, ast.Return):
+                    ok, detail = None, "returned to the caller, which the rule does not follow"
                 else:
                     detail = f"constructed but not sent: {short(source.enclosing_stmt(n), 80)}"
+                if ok is None:
+                    chk.unknown("O9.4", f"{source.qualname(n)}: {last_attr(n.func)} {detail}", n)
+                    continue
                 chk.ob("O9.4", f"{source.qualname(n)}: {last_attr(n.func)}", ok, n, detail,
                        key=f"{m.relpath}:{source.qualname(n)}:{last_attr(n.func)}({short(n.args[0], 50) if n.args else ''})")
     # address attributes never called
@@ -652,35 +1271,52 @@ def run(chk):
         fut_attrs = set()
         for m in a.methods.values():
             for n in walk_body(m):
-                if isinstance(n, ast.Assign) and isinstance(n.value, ast.Call) and last_attr(n.value.func) == "submit" and len(n.targets) == 1 and is_self_attr(n.targets[0]):
-                    fut_attrs.add(n.targets[0].attr)
+                if isinstance(n, ast.Assign) and len(n.targets) == 1 and is_self_attr(n.targets[0]):
+                    v_ = _through_locals(n.value, m)
+                    if isinstance(v_, ast.Call) and last_attr(v_.func) == "submit":
+                        fut_attrs.add(n.targets[0].attr)
         if not fut_attrs:
             continue
-        f = a.methods.get("receiveMsg_WakeupMessage")
+        f = model.table.method(a, "receiveMsg_WakeupMessage")
         inst = f"{a.name}.receiveMsg_WakeupMessage polls {sorted(fut_attrs)}"
         if f is None:
             chk.ob("O9.5", inst, False, a.node, "no WakeupMessage handler")
             continue
-        g = cfg_of(f)
         found = False
-        for n in walk_body(f):
-            if isinstance(n, ast.Assign) and isinstance(n.value, ast.Call) and last_attr(n.value.func) == "exception" \
-                    and isinstance(n.value.func, ast.Attribute) and is_self_attr(n.value.func.value) and n.value.func.value.attr in fut_attrs \
-                    and len(n.targets) == 1 and isinstance(n.targets[0], ast.Name):
-                var = n.targets[0].id
-                # the test on the variable: any `if` that decides on it alone (evaluated for an exception object and for None, so `if e`, `if e is not None`,
-                # `if not e` / `if e is None` with swapped arms are the same decision); the branch taken for an exception must send
-                for t in walk_body(f):
-                    lab = _truthy_edge(t.test, var) if isinstance(t, ast.If) else None
-                    if lab is not None:
-                        found = True
-                        tn = g.node_of(t)
-                        sends = [g.node_of(c) for c in source.calls_in(f, attr="send") if is_failure_send(c) and send_target_ok(c, set(addr[a.name]), f)]
-                        starts = g.edge_targets(tn, lab)
-                        ok = bool(sends) and bool(starts) and all(s in sends or g.must_pass(s, sends) for s in starts)
-                        chk.ob("O9.5", inst, ok, t, "on a truthy future exception every normal path sends BenchmarkFailure" if ok else
-                               "a path from the truthy-exception branch reaches the handler's end without sending BenchmarkFailure")
-        if not found:
+        handed_on = None
+        # the poll is looked for in the handler and in the helper methods of the class it reaches; the future may be read through a local alias
+        for ci_, fn in model.method_closure(a, f):
+            if ci_ is not a and ci_ not in model.table.mro(a):
+                continue
+            g = cfg_of(fn)
+            for n in walk_body(fn):
+                if isinstance(n, ast.Assign) and isinstance(n.value, ast.Call) and last_attr(n.value.func) == "exception" and isinstance(n.value.func, ast.Attribute) \
+                        and is_self_attr(_through_locals(n.value.func.value, fn)) and _through_locals(n.value.func.value, fn).attr in fut_attrs \
+                        and len(n.targets) == 1 and isinstance(n.targets[0], ast.Name):
+                    var = n.targets[0].id
+                    # the test on the variable: any `if` that decides on it alone (evaluated for an exception object and for None, so `if e`, `if e is not None`,
+                    # `if not e` / `if e is None` with swapped arms are the same decision); the branch taken for an exception must report (a failure send to an address,
+                    # or a helper method that sends one on every path)
+                    rec_, unrec_ = _report_sites(model, a, fn, set(), set(addr[a.name]), accept_failure=True)
+                    for t in walk_body(fn):
+                        lab = _truthy_edge(t.test, var) if isinstance(t, ast.If) else None
+                        if lab is not None:
+                            found = True
+                            tn = g.node_of(t)
+                            sends = [g.node_of(c) for c, _ in rec_]
+                            starts = g.edge_targets(tn, lab)
+                            ok = bool(sends) and bool(starts) and all(s in sends or g.must_pass(s, sends) for s in starts)
+                            if not ok and unrec_:
+                                chk.unknown("O9.5", f"{inst}: the failure report `{short(unrec_[0], 60)}` goes to a target that is not recognised as an actor address", unrec_[0])
+                                continue
+                            chk.ob("O9.5", inst, ok, t, "on a truthy future exception every normal path sends BenchmarkFailure" if ok else
+                                   "a path from the truthy-exception branch reaches the handler's end without sending BenchmarkFailure")
+                    if not found:
+                        handed_on = handed_on or next((c for c in walk_body(fn) if isinstance(c, ast.Call) and not _log_noise(c) and last_attr(c.func) not in ("str", "repr")
+                                                       and any(isinstance(x, ast.Name) and x.id == var for a_ in list(c.args) + [k.value for k in c.keywords] for x in ast.walk(a_))), None)
+        if not found and handed_on is not None:
+            chk.unknown("O9.5", f"{inst}: the future's exception is read but handed to `{short(handed_on, 60)}`, which the rule does not follow", handed_on)
+        elif not found:
             chk.ob("O9.5", inst, False, f, "the handler never reads <future>.exception() into a tested variable")
     # broad handler in the request loop re-raises
     ex = drv.cls("AsyncExecutor")
@@ -695,7 +1331,10 @@ def run(chk):
     for t in trys:
         for h in t.handlers:
             hn = [x for x in g.by_ast.get(id(h), [])]
-            ok = bool(hn) and all(g.exit.id not in g.reachable([x]) for x in hn)
+            if not hn:
+                chk.unknown("O9.5", f"AsyncExecutor.__call__: handler `except {u(h.type) if h.type else ''}` has no node in the control-flow graph", h)
+                continue
+            ok = all(g.exit.id not in g.reachable([x]) for x in hn)
             chk.ob("O9.5", f"AsyncExecutor.__call__: handler `except {u(h.type) if h.type else ''}` never completes normally", ok, h,
                    "every path from this handler ends in raise" if ok else "the handler can fall through / return: the executor future completes without exception")
     # AsyncIoAdapter / gather: exceptions must propagate (no return_exceptions=True)
@@ -714,31 +1353,142 @@ def run(chk):
              "wake-up reports BenchmarkCancelled before looking at the future; the request loop stops at the next request; the task's error behaviour is 'abort' iff the benchmark's is "
              "'abort' and the task does not ignore non-fatal errors", 7,
              "Ctrl+C ends the race as success / stores results; on-error=abort continues after a failed request of some task")
-    kh = [h for t in ast.walk(race_fn) if isinstance(t, ast.Try) for h in t.handlers if h.type is not None and last_attr(h.type) == "KeyboardInterrupt"]
-    ok = bool(kh) and any(isinstance(n, ast.Call) and last_attr(n.func) == "ask" and len(n.args) >= 2 and isinstance(n.args[1], ast.Call) and last_attr(n.args[1].func) == "BenchmarkCancelled" for n in ast.walk(kh[0])) \
-        and isinstance(kh[0].body[-1], ast.Raise)
-    chk.ob("O9.9", "race(): KeyboardInterrupt -> ask(BenchmarkCancelled) then raise", ok, kh[0] if kh else race_fn, "")
+    gr_ = cfg_of(race_fn)
+    kh = [h for t in ast.walk(race_fn) if isinstance(t, ast.Try) for h in t.handlers
+          if h.type is not None and "KeyboardInterrupt" in [last_attr(e_) for e_ in (h.type.elts if isinstance(h.type, ast.Tuple) else [h.type])]]
+    if not kh:
+        chk.unknown("O9.9", "race(): no handler of KeyboardInterrupt was located (is Ctrl+C handled by the caller?)", race_fn)
+    else:
+        # blocking notification (ask; the payload built in place or via a local) on every path through the handler, and the handler never completes normally
+        asks = [n for n in ast.walk(kh[0]) if isinstance(n, ast.Call) and last_attr(n.func) == "ask" and _sends(n, race_fn, "BenchmarkCancelled")]
+        hn_ = gr_.by_ast.get(id(kh[0]), [])
+        raises_ = [gr_.node_of(r_) for r_ in ast.walk(kh[0]) if isinstance(r_, ast.Raise)]
+        ok = bool(asks) and bool(hn_) and bool(raises_) and all(gr_.exit.id not in gr_.reachable([x]) for x in hn_) \
+            and all(gr_.must_pass(x, [gr_.node_of(c) for c in asks], exits=raises_, normal_only=True) for x in hn_)
+        chk.ob("O9.9", "race(): KeyboardInterrupt -> ask(BenchmarkCancelled) then raise", ok, kh[0], "")
+    exit_tells = [n for n in ast.walk(race_fn) if isinstance(n, ast.Call) and _sends(n, race_fn, "ActorExitRequest")]
     fin = [t for t in ast.walk(race_fn) if isinstance(t, ast.Try) and t.finalbody]
-    ok = bool(fin) and any(isinstance(n, ast.Call) and last_attr(n.func) == "tell" and "ActorExitRequest" in u(n) for s_ in fin[0].finalbody for n in ast.walk(s_))
-    chk.ob("O9.9", "race(): race control is always told to exit (finally)", ok, fin[0] if fin else race_fn, "")
+    if not exit_tells:
+        chk.unknown("O9.9", "race(): the ActorExitRequest for race control was not located", race_fn)
+    else:
+        ok = any(any(n is x for s_ in t.finalbody for x in ast.walk(s_)) and not guards(n, stop=t) for t in fin for n in exit_tells)
+        chk.ob("O9.9", "race(): race control is always told to exit (finally)", ok, fin[0] if fin else exit_tells[0], "")
     Wk = model.actor("Worker")
-    exr = Wk.methods.get("receiveMsg_ActorExitRequest")
-    ok = exr is not None and any(isinstance(n, ast.Call) and u(n.func) == "self.cancel.set" and pat.guarded(n, "E_future.running()") is not None for n in walk_body(exr))
-    chk.ob("O9.9", "exit request sets the cancel event while the executor runs", ok, exr if exr is not None else Wk.node, "")
-    wkh = Wk.methods.get("receiveMsg_WakeupMessage")
+    # the cancel event, by role: the Worker attribute whose .set() the exit request calls and which is handed to the load generator: Worker -> AsyncIoAdapter(...) ->
+    # AsyncExecutor(...), followed through constructor arguments and the attributes the constructors store them in (names are irrelevant)
+    ADP = drv.cls("AsyncIoAdapter")
+    adp_init, exi = drv.methods(ADP).get("__init__"), drv.methods(ex).get("__init__")
+    if adp_init is None or exi is None:
+        raise AnchorMissing("AsyncIoAdapter.__init__ / AsyncExecutor.__init__")
+
+    def ctor_flow(src_funcs, src_attr, ctor_name, target_init):
+        """attribute of the constructed object that receives self.<src_attr> of the constructing one (argument -> parameter -> `self.<y> = <parameter>`), or None"""
+        for fn in src_funcs:
+            for c in ast.walk(fn):
+                if isinstance(c, ast.Call) and last_attr(c.func) == ctor_name:
+                    for p_, v_ in source.bind_args(c, target_init).items():
+                        if is_self_attr(v_, src_attr):
+                            for n in walk_body(target_init):
+                                if isinstance(n, ast.Assign) and len(n.targets) == 1 and is_self_attr(n.targets[0]) and isinstance(n.value, ast.Name) and n.value.id == p_:
+                                    return n.targets[0].attr
+        return None
+
+    def ctor_source(src_funcs, ctor_name, target_init, target_attr):
+        """the reverse: the expression the constructing object passes for the parameter that target_init stores in self.<target_attr>, or None"""
+        pn = next((n.value.id for n in walk_body(target_init) if isinstance(n, ast.Assign) and len(n.targets) == 1 and is_self_attr(n.targets[0], target_attr) and isinstance(n.value, ast.Name)), None)
+        for fn in src_funcs:
+            for c in ast.walk(fn):
+                if isinstance(c, ast.Call) and last_attr(c.func) == ctor_name and pn in source.bind_args(c, target_init):
+                    return source.bind_args(c, target_init)[pn]
+        return None
+
+    exr = model.table.method(Wk, "receiveMsg_ActorExitRequest")
+    wk_funcs = list(Wk.methods.values())
+    adp_funcs = list(drv.methods(ADP).values())
+    set_sites = []  # (node in the exit handler, the .set() call, Worker attribute)
+    if exr is not None:
+        for ci_, fn in model.method_closure(Wk, exr, depth=2):
+            for n in walk_body(fn):
+                if isinstance(n, ast.Call) and isinstance(n.func, ast.Attribute) and n.func.attr == "set" and not n.args and is_self_attr(_through_locals(n.func.value, fn)):
+                    top = n if fn is exr else next((c for c in walk_body(exr) if isinstance(c, ast.Call) and is_self_attr(c.func) and c.func.attr == fn.name), None)
+                    if top is not None:
+                        set_sites.append((top, n, _through_locals(n.func.value, fn).attr))
+    ev_w = ev_a = ev_x = None
+    for _, _, attr_ in set_sites:
+        a_ = ctor_flow(wk_funcs, attr_, "AsyncIoAdapter", adp_init)
+        x_ = ctor_flow(adp_funcs, a_, "AsyncExecutor", exi) if a_ else None
+        if x_:
+            ev_w, ev_a, ev_x = attr_, a_, x_
+    futs_w = {n.targets[0].attr for m_ in wk_funcs for n in walk_body(m_) if isinstance(n, ast.Assign) and len(n.targets) == 1 and is_self_attr(n.targets[0])
+              and isinstance(_through_locals(n.value, m_), ast.Call) and last_attr(_through_locals(n.value, m_).func) == "submit"}
+
+    def facts_text(node, fn, stop=None):
+        """guard facts of node as text, single-assignment locals of fn looked through (`cancelled = self.cancel.is_set` ... `if cancelled():` is the same test)"""
+        return [source.inline(f_, _ldefs(fn)) for f_ in pat.fact_nodes(node, stop=stop)]
+
+    if exr is None:
+        chk.ob("O9.9", "exit request sets the cancel event while the executor runs", False, Wk.node, "Worker has no receiveMsg_ActorExitRequest")
+    elif ev_w is None:
+        if set_sites or _opaque_calls(exr):
+            chk.unknown("O9.9", "Worker.receiveMsg_ActorExitRequest: no event that is set there could be followed into the load generator (Worker -> AsyncIoAdapter -> AsyncExecutor)", exr)
+        else:
+            chk.ob("O9.9", "exit request sets the cancel event while the executor runs", False, exr, "the handler sets no event")
+    else:
+        # ... while the executor runs: among the conditions of the .set() (in the handler, and in the helper if it sits in one) is <future>.running()
+        ok = False
+        for top, n, attr_ in set_sites:
+            if attr_ == ev_w:
+                fts = facts_text(top, exr) + (facts_text(n, source.enclosing_func(n)) if top is not n else [])
+                ok = ok or any(ft == f"self.{fu}.running()" for ft in fts for fu in futs_w)
+        chk.ob("O9.9", "exit request sets the cancel event while the executor runs", ok, exr, f"cancel event: Worker.{ev_w} -> AsyncIoAdapter.{ev_a} -> AsyncExecutor.{ev_x}")
+    wkh = model.table.method(Wk, "receiveMsg_WakeupMessage")
     if wkh is None:
         raise AnchorMissing("Worker.receiveMsg_WakeupMessage")
     gk = cfg_of(wkh)
-    cs_ = [c for c in source.calls_in(wkh, attr="send") if len(c.args) >= 2 and isinstance(c.args[1], ast.Call) and last_attr(c.args[1].func) == "BenchmarkCancelled"]
-    ex_ = [n for n in walk_body(wkh) if isinstance(n, ast.Call) and last_attr(n.func) == "exception"]
-    ok = bool(cs_) and holds(cs_[0], "self.cancel.is_set()") and bool(ex_) and not gk.path_exists(gk.node_of(cs_[0]), gk.node_of(ex_[0])) \
-        and holds(ex_[0], "not self.cancel.is_set()")
-    chk.ob("O9.9", "worker wake-up reports cancellation before polling the future", ok, cs_[0] if cs_ else wkh, "")
-    # first statement of the loop body that is not logging: an `if` one of whose arms breaks exactly when the cancel event is set (decided on the guard facts of the break)
-    body_ = [s_ for s_ in loops[0].body if not is_logging_stmt(s_)]
+
+    def closure_sites(fn0, pred):
+        """[(node in fn0, matching node, function holding it)] for nodes satisfying pred in fn0 or in a helper method of Worker that fn0 calls directly"""
+        out = [(n, n, fn0) for n in walk_body(fn0) if pred(n, fn0)]
+        for c in walk_body(fn0):
+            if isinstance(c, ast.Call) and is_self_attr(c.func) and c.func.attr != "send":
+                h_ = model.table.method(Wk, c.func.attr)
+                if h_ is not None and h_ is not fn0:
+                    out += [(c, n, h_) for n in walk_body(h_) if pred(n, h_)]
+        return out
+
+    cs_ = closure_sites(wkh, lambda n, fn: isinstance(n, ast.Call) and last_attr(n.func) == "send" and _sends(n, fn, "BenchmarkCancelled"))
+    ex_ = closure_sites(wkh, lambda n, fn: isinstance(n, ast.Call) and isinstance(n.func, ast.Attribute) and n.func.attr == "exception" and is_self_attr(_through_locals(n.func.value, fn))
+                        and _through_locals(n.func.value, fn).attr in futs_w)
+    if ev_w is None:
+        chk.unknown("O9.9", "Worker.receiveMsg_WakeupMessage: the cancel event was not identified (see above)", wkh)
+    else:
+        is_set, not_set = f"self.{ev_w}.is_set()", f"not self.{ev_w}.is_set()"
+
+        def under(site, fact):
+            top, n, fn = site
+            return fact in facts_text(top, wkh) or (top is not n and fact in facts_text(n, fn))
+
+        # cancellation is reported under "the event is set"; the future is only looked at under "the event is not set", and never after the report
+        def poll_after(c, e_):
+            """can the poll e_ run after the report c? (both in the same function: in that function's graph; otherwise by the places they are reached from in the handler)"""
+            if c[2] is e_[2]:
+                gx = cfg_of(c[2])
+                return gx.path_exists(gx.node_of(c[1]), gx.node_of(e_[1]))
+            return gk.path_exists(gk.node_of(c[0]), gk.node_of(e_[0]))
+
+        ok = bool(cs_) and all(under(c, is_set) for c in cs_) and all(under(e_, not_set) and not any(poll_after(c, e_) for c in cs_) for e_ in ex_)
+        chk.ob("O9.9", "worker wake-up reports cancellation before polling the future", ok, cs_[0][0] if cs_ else wkh,
+               "" if ok else ("no BenchmarkCancelled is sent" if not cs_ else f"expected the report under `{is_set}` and the poll under `{not_set}`"))
+    # the request loop: the first thing an iteration does (logging and plain bindings without calls aside) is an `if` one of whose arms breaks exactly when the cancel event is set
+    # (decided on the guard facts of the break; the event is the executor's attribute the Worker's event arrives in)
+    body_ = [s_ for s_ in loops[0].body if not is_logging_stmt(s_)
+             and not (isinstance(s_, ast.Assign) and not any(isinstance(x, (ast.Call, ast.Await, ast.Yield, ast.YieldFrom)) for x in ast.walk(s_.value)))]
     first = body_[0] if body_ else loops[0]
-    ok = isinstance(first, ast.If) and any(isinstance(x, ast.Break) and [u(f_) for f_ in pat.fact_nodes(x, stop=loops[0])] == ["self.cancel.is_set()"] for x in first.body + first.orelse)
-    chk.ob("O9.9", "request loop stops at the next request once cancelled", ok, first, "")
+    if ev_x is None:
+        chk.unknown("O9.9", "AsyncExecutor.__call__: the cancel event was not identified (see above)", first)
+    else:
+        ok = isinstance(first, ast.If) and any(isinstance(x, ast.Break) and facts_text(x, call, stop=loops[0]) == [f"self.{ev_x}.is_set()"] for x in first.body + first.orelse)
+        chk.ob("O9.9", "request loop stops at the next request once cancelled", ok, first, "")
     trkm = repo.module("esrally/track/track.py")
     chk.use(trkm)
     eb = trkm.methods(trkm.cls("Task")).get("error_behavior")
@@ -767,66 +1517,72 @@ def run(chk):
         want = "abort" if (dflt and not ignores) else "continue"
         chk.ob("O9.9", f"error behaviour when on-error={'abort' if dflt else 'continue'} and the task {'ignores' if ignores else 'does not ignore'} non-fatal errors" + (" (level = '')" if level == "" else ""),
                got == want, eb, f"{got}; expected {want}", key=f"esrally/track/track.py:Task.error_behavior:{dflt}|{ignores}" + ("|empty" if level == "" else ""))
-    adp = drv.methods(drv.cls("AsyncIoAdapter")).get("run")
-    exi = drv.methods(ex).get("__init__")
-    if adp is None or exi is None:
-        raise AnchorMissing("AsyncIoAdapter.run / AsyncExecutor.__init__")
-    exc_ = [n for n in walk_body(adp) if isinstance(n, ast.Call) and last_attr(n.func) == "AsyncExecutor"]
-    # by role: the on_error argument is <t>.error_behavior(self.abort_on_error) where <t> is the very local handed to the executor as its task
-    bound = source.bind_args(exc_[0], exi) if exc_ else {}
-    tk_ = bound.get("task")
-    ok = bool(exc_) and isinstance(tk_, ast.Name) and pat.match(bound.get("on_error"), "V_t.error_behavior(self.abort_on_error)", {"t": tk_.id}) is not None
-    chk.ob("O9.9", "each executor gets its task's error behaviour derived from the worker's on-error setting", ok, exc_[0] if exc_ else adp, "")
-    wst = Wk.methods.get("receiveMsg_StartWorker")
-    if wst is None:
-        raise AnchorMissing("Worker.receiveMsg_StartWorker")
-    ok = any(isinstance(n, ast.Assign) and is_self_attr(n.targets[0], "on_error") and "'on.error'" in u(n.value) for n in walk_body(wst))
-    chk.ob("O9.9", "worker reads on-error from the driver configuration", ok, wst, "")
+    # by role: among the constructor arguments of the executor one is <t>.error_behavior(self.<a>) where <t> is itself handed to the executor (its task); the parameter it binds
+    # is stored in the attribute the request loop hands to execute_single; self.<a> of the adapter is what the Worker passes for it, read from the 'on.error' setting
+    exc_ = [n for m_ in adp_funcs for n in ast.walk(m_) if isinstance(n, ast.Call) and last_attr(n.func) == "AsyncExecutor"]
+    if not exc_:
+        raise AnchorMissing("AsyncExecutor(...) in a method of AsyncIoAdapter")
+    bound = source.bind_args(exc_[0], exi)
+    hit = None
+    for p_, v_ in bound.items():
+        b_ = None
+        if isinstance(v_, ast.Call) and isinstance(v_.func, ast.Attribute) and v_.func.attr == eb.name and isinstance(v_.func.value, ast.Name) and len(v_.args) == 1 and is_self_attr(v_.args[0]):
+            b_ = {"t": v_.func.value.id, "a": v_.args[0].attr}
+        if b_ is not None:
+            hit = (p_, b_["t"], v_.args[0].attr if v_.args and is_self_attr(v_.args[0]) else None)
+    if hit is None:
+        # located the constructor call but no argument asks a task for its error behaviour: is the behaviour computed elsewhere (inside the executor)?
+        inner = [n for m_ in drv.methods(ex).values() for n in ast.walk(m_) if isinstance(n, ast.Call) and last_attr(n.func) == eb.name]
+        if inner:
+            chk.unknown("O9.9", f"the task's error behaviour is asked for in AsyncExecutor ({short(inner[0], 60)}), a shape the rule does not follow", inner[0])
+        else:
+            chk.ob("O9.9", "each executor gets its task's error behaviour derived from the worker's on-error setting", False, exc_[0], f"no constructor argument of the form <task>.{eb.name}(self.<setting>)")
+        w_src = None
+    else:
+        p_, t_, a_attr = hit
+        x_attr = next((n.targets[0].attr for n in walk_body(exi) if isinstance(n, ast.Assign) and len(n.targets) == 1 and is_self_attr(n.targets[0]) and isinstance(n.value, ast.Name) and n.value.id == p_), None)
+        to_single = [c for c in ast.walk(call) if isinstance(c, ast.Call) and last_attr(c.func) == "execute_single" and any(is_self_attr(a_, x_attr) for a_ in list(c.args) + [k.value for k in c.keywords])] if x_attr else []
+        task_is_arg = any(isinstance(v_, ast.Name) and v_.id == t_ for k_, v_ in bound.items() if k_ != p_)
+        if x_attr is None or not to_single:
+            chk.unknown("O9.9", f"AsyncExecutor: the constructor parameter `{p_}` (the task's error behaviour) could not be followed to the execute_single call of the request loop", exc_[0])
+        else:
+            chk.ob("O9.9", "each executor gets its task's error behaviour derived from the worker's on-error setting", task_is_arg and a_attr is not None, exc_[0],
+                   f"{t_}.{eb.name}(self.{a_attr}) -> AsyncExecutor.{x_attr} -> execute_single" + ("" if task_is_arg else f"; `{t_}` is not the task handed to this executor"))
+        w_src = ctor_source(wk_funcs, "AsyncIoAdapter", adp_init, a_attr) if a_attr else None
+    if hit is not None and not is_self_attr(w_src):
+        chk.unknown("O9.9", "Worker: the value handed to AsyncIoAdapter as the on-error setting could not be followed to a Worker attribute", Wk.node)
+    elif hit is not None:
+        stores = [n for m_ in wk_funcs if m_.name != "__init__" for n in walk_body(m_) if isinstance(n, ast.Assign) and any(is_self_attr(t, w_src.attr) for t in n.targets)]
+        ok = bool(stores) and all(any(source.is_const(x, "on.error") for x in ast.walk(n.value)) for n in stores)
+        chk.ob("O9.9", "worker reads on-error from the driver configuration", ok, stores[0] if stores else Wk.node, f"Worker.{w_src.attr}: {[short(n, 70) for n in stores]}")
 
     # ---- O9.6 no results on error or cancel ----------------------------------------------------------
-    chk.rule("O9.6", "in the coordinator every call that computes, stores or prints results is reachable only under cancelled=False and error=False "
-             "(4-row truth table of the guarding predicates); the flags are only ever set to True after construction", 5,
+    chk.rule("O9.6", "in the coordinator every call that computes, stores or prints results (in whichever method; a helper inherits the conditions of its call sites) is reachable only "
+             "under cancelled=False and error=False (truth table of the guarding predicates, evaluated on values; the flags are found by role: boolean attributes, False after "
+             "construction, that guard the result calls or are raised by race control); the flags are only ever set to True after construction", 5,
              "a failed or cancelled race stores/prints final results")
     coord = rc.cls("BenchmarkCoordinator")
-    obc = rc.methods(coord).get("on_benchmark_complete")
-    if obc is None:
-        raise AnchorMissing("BenchmarkCoordinator.on_benchmark_complete")
-
-    def classify(n):
-        if is_self_attr(n, "cancelled"):
-            return "cancelled"
-        if is_self_attr(n, "error"):
-            return "error"
-        return None
-
-    for n in walk_body(obc):
-        if isinstance(n, ast.Call) and (last_attr(n.func) in RESULT_CALLS or last_attr(n.func) == "store_race"):
-            gs = guards(n)
-            try:
-                allowed = []
-                for env in [{"cancelled": c, "error": e} for c in (False, True) for e in (False, True)]:
-                    val = True
-                    for test, pol in gs:
-                        rows = truth_table(test, ["cancelled", "error"], classify)
-                        v = [r for e2, r in rows if e2 == env][0]
-                        val = val and (v == pol)
-                    if val:
-                        allowed.append(env)
-                ok = allowed == [{"cancelled": False, "error": False}]
-                chk.ob("O9.6", f"on_benchmark_complete: {last_attr(n.func)}()", ok, n, f"reachable under {allowed}")
-            except UnknownAtom as e:
-                chk.unknown("O9.6", f"guard of {short(n, 50)} contains foreign atom {e}", n)
-    for m in rc.methods(coord).values():
-        if m.name in ("on_benchmark_complete", "on_preparation_complete"):
-            continue
-        for n in walk_body(m):
-            if isinstance(n, ast.Call) and last_attr(n.func) in RESULT_CALLS:
-                chk.ob("O9.6", f"{m.name}: {last_attr(n.func)}()", False, n, "result computation/storage outside the guarded completion routine")
+    # by role: EVERY call of the coordinator that computes, stores or prints results (in whichever method; a helper inherits the conditions it is called under) is reachable only
+    # while all result-guarding flags (found above: boolean attributes, False after construction, that occur in those conditions) are False. The conditions are evaluated on values.
+    rcalls = _result_calls(coord_ci)
+    if not rcalls:
+        raise AnchorMissing("BenchmarkCoordinator: no call that computes, stores or prints results")
+    all_false = {k: False for k in sorted(guard_flags)}
+    for m, n in rcalls:
+        try:
+            allowed = []
+            for chain in _guard_chains(coord_ci, m, n):
+                allowed += [e_ for e_ in _allowed_flag_envs(chain, guard_flags) if e_ not in allowed]
+            ok = allowed == [all_false]
+            chk.ob("O9.6", f"{m.name}: {last_attr(n.func)}()", ok, n, f"reachable under {allowed}")
+        except UnknownAtom as e:
+            chk.unknown("O9.6", f"guard of {short(n, 50)} contains too many foreign atoms ({e})", n)
+    coord_attrs = {k for k, v in attr_cls.items() if v is coord_ci}
     for mod in (rc,):
         for n in ast.walk(mod.tree):
             if isinstance(n, ast.Assign):
                 for t in n.targets:
-                    if isinstance(t, ast.Attribute) and t.attr in ("cancelled", "error") and (is_self_attr(t.value, "coordinator") or (is_self_attr(t) and source.enclosing_class(n) is coord)):
+                    if isinstance(t, ast.Attribute) and t.attr in guard_flags and ((is_self_attr(t.value) and t.value.attr in coord_attrs) or (is_self_attr(t) and source.enclosing_class(n) is coord)):
                         f = source.enclosing_func(n)
                         if f is not None and f.name == "__init__":
                             continue
@@ -839,18 +1595,28 @@ def run(chk):
     for m in repo.all_modules():
         for n in ast.walk(m.tree):
             if isinstance(n, ast.Call) and last_attr(n.func) in ("Success", "StopEngine"):
-                if m.relpath.startswith("esrally/") and source.enclosing_class(n) is not None and isinstance(source.parent(n), ast.Call):
+                if m.relpath.startswith("esrally/") and source.enclosing_class(n) is not None and source.enclosing_func(n) is not None and isinstance(source.parent(n), (ast.Call, ast.Assign, ast.Return)):
                     f = source.enclosing_func(n)
                     cls = source.enclosing_class(n)
                     want = "receiveMsg_EngineStopped" if last_attr(n.func) == "Success" else "receiveMsg_BenchmarkComplete"
                     if last_attr(n.func) == "Success" and cls.name != "BenchmarkActor":
                         continue  # other classes named Success (none today)
-                    chk.ob("O9.7", f"{last_attr(n.func)}() constructed in {cls.name}.{f.name}", cls.name == "BenchmarkActor" and f.name == want, n,
-                           f"expected only in BenchmarkActor.{want}")
+                    # on whose behalf it is constructed: the handler itself, or - for a helper method - every handler that reaches it through self.<helper>() calls
+                    while not any(f is m_ for m_ in cls.body) and source.enclosing_func(f) is not None:
+                        f = source.enclosing_func(f)
+                    origins = sorted(set(_origin_handlers(f, cls)))
+                    if not origins:
+                        chk.unknown("O9.7", f"{last_attr(n.func)}() is constructed in {cls.name}.{f.name}, which no message handler of the class was found to call", n)
+                        continue
+                    chk.ob("O9.7", f"{last_attr(n.func)}() constructed in {cls.name}.{f.name}", cls.name == "BenchmarkActor" and origins == [want], n,
+                           f"expected only in BenchmarkActor.{want}" + ("" if origins == [f.name] else f"; reached from {origins}"))
+    # the plain objects the actors delegate to, found by construction (self.<x> = <Class>(...)); the two known ones by name as a fallback
     extra = {"BenchmarkActor": {"coordinator": model.table.get("BenchmarkCoordinator")}, "DriverActor": {"driver": model.table.get("Driver")}}
     for a in model.actors:
+        extra.setdefault(a.name, {}).update(_attr_classes(model, a))
+    for a in model.actors:
         for hname in ("receiveMsg_BenchmarkFailure", "receiveMsg_BenchmarkCancelled", "receiveMsg_PoisonMessage"):
-            f = a.methods.get(hname)
+            f = model.table.method(a, hname)
             if f is None:
                 continue
             bad = []
@@ -871,12 +1637,19 @@ def run(chk):
             return last_attr(t.args[1]), pol
         return None
 
-    arms = {}
-    for n in walk_body(race_fn):
-        if isinstance(n, ast.If) and isinst(n.test) is not None:
-            arms[isinst(n.test)[0]] = n
+    # the dispatch over the reply sits in race() itself or in a module-level function race() calls (an extracted `_evaluate(result)`): what raises there raises out of race()
+    disp_fn, arms = race_fn, {}
+    for cand in [race_fn] + [fn_ for c in walk_body(race_fn) if isinstance(c, ast.Call) and isinstance(c.func, ast.Name) for fn_ in [rc.get(c.func.id, required=False)] if isinstance(fn_, source.FUNC_TYPES)]:
+        found_ = {}
+        for n in walk_body(cand):
+            if isinstance(n, ast.If) and isinst(n.test) is not None:
+                found_[isinst(n.test)[0]] = n
+        if "Success" in found_ and "BenchmarkFailure" in found_:
+            disp_fn, arms = cand, found_
+            break
     if "Success" not in arms or "BenchmarkFailure" not in arms:
         raise AnchorMissing("race(): isinstance chain over the reply not found")
+    g = cfg_of(disp_fn)
     fa = arms["BenchmarkFailure"]
     tn = g.node_of(fa)
     starts = g.edge_targets(tn, "true" if isinst(fa.test)[1] else "false")
@@ -900,7 +1673,7 @@ def run(chk):
     except (_Uns, UnknownAtom) as e:
         chk.unknown("O9.7", f"race(): reply dispatch is not a decision over isinstance tests: {e}", top[0])
     # success log only under Success
-    for n in walk_body(race_fn):
+    for n in [x for fn_ in ([race_fn] if disp_fn is race_fn else [race_fn, disp_fn]) for x in walk_body(fn_)]:
         if isinstance(n, ast.Call) and is_logging_call(n) and n.args and isinstance(n.args[0], ast.Constant) and "success" in str(n.args[0].value).lower():
             ok = any(isinst(t) == ("Success", True) for t in pat.fact_nodes(n))
             chk.ob("O9.7", "race(): success is logged only for a Success reply", ok, n, short(n, 70))
@@ -909,7 +1682,7 @@ def run(chk):
     for a in model.actors:
         for hname in ("receiveMsg_BenchmarkFailure", "receiveMsg_BenchmarkCancelled", "receiveMsg_PoisonMessage"):
             f = a.methods.get(hname)
-            if f is None or handler_guard(f):
+            if f is None or _handler_guard(f):
                 continue
             sends = source.calls_in(f, attr="send")
             if not sends:
@@ -1025,4 +1798,113 @@ VARIANTS = [
       "                if e is None:\n                    self.logger.debug(\"Worker[%s] is ready for the next task.\", str(self.worker_id))\n                    self.executor_future = None\n                    self.drive()\n                    return\n"
       "                self.logger.exception(\"Worker[%s] has detected a benchmark failure. Notifying master...\", str(self.worker_id), exc_info=e)\n"
       "                self.send(self.driver_actor, actor.BenchmarkFailure(f\"Error in load generator [{self.worker_id}]\", str(e)))\n"),
+    # ---- hardening round 2: refactored shapes (extracted helpers, locals, hoisted bindings, renames) stay silent; the defect placed INSIDE the refactored shape is still reported
+    [V("schedule generator: one try around the finite loop instead of a try inside it", "keep", _D, "            while not self.task_progress_control.completed:\n                try:\n", "            try:\n                while not self.task_progress_control.completed:\n"),
+     V("", "keep", _D, "                    self.task_progress_control.next()\n                except StopIteration:\n                    return\n\n\nclass TimePeriodBased:", "                    self.task_progress_control.next()\n            except StopIteration:\n                return\n\n\nclass TimePeriodBased:")],
+    [V("schedule generator: the try around the loop swallows every exception", "break", _D, "            while not self.task_progress_control.completed:\n                try:\n", "            try:\n                while not self.task_progress_control.completed:\n", "O9.5c"),
+     V("", "break", _D, "                    self.task_progress_control.next()\n                except StopIteration:\n                    return\n\n\nclass TimePeriodBased:", "                    self.task_progress_control.next()\n            except Exception:\n                return\n\n\nclass TimePeriodBased:")],
+    V("request loop: the event's is_set hoisted into a local before the loop", "keep", _D, "            async for expected_scheduled_time, sample_type, percent_completed, runner, params in schedule:\n                if self.cancel.is_set():\n",
+      "            cancelled = self.cancel.is_set\n            async for expected_scheduled_time, sample_type, percent_completed, runner, params in schedule:\n                if cancelled():\n"),
+    V("request loop: the hoisted test reads the OTHER event (complete)", "break", _D, "            async for expected_scheduled_time, sample_type, percent_completed, runner, params in schedule:\n                if self.cancel.is_set():\n",
+      "            cancelled = self.complete.is_set\n            async for expected_scheduled_time, sample_type, percent_completed, runner, params in schedule:\n                if cancelled():\n", "O9.9"),
+    V("request loop: a plain binding precedes the cancel test", "keep", _D, "                if self.cancel.is_set():\n                    self.logger.info(\"User cancelled execution.\")\n                    break\n                absolute_expected_schedule_time = schedule_start + expected_scheduled_time\n",
+      "                absolute_expected_schedule_time = schedule_start + expected_scheduled_time\n                if self.cancel.is_set():\n                    self.logger.info(\"User cancelled execution.\")\n                    break\n"),
+    [V("executor's cancel attribute renamed (constructor parameter keeps its name)", "keep", _D, "        self.cancel = cancel\n        self.complete = complete\n        self.on_error = on_error\n", "        self.cancel_event = cancel\n        self.complete = complete\n        self.on_error = on_error\n"),
+     V("", "keep", _D, "                if self.cancel.is_set():\n                    self.logger.info(\"User cancelled execution.\")", "                if self.cancel_event.is_set():\n                    self.logger.info(\"User cancelled execution.\")")],
+    [V("executor's attributes renamed and the loop tests the wrong one", "break", _D, "        self.cancel = cancel\n        self.complete = complete\n        self.on_error = on_error\n", "        self.cancel_event = cancel\n        self.complete_event = complete\n        self.on_error = on_error\n", "O9.9"),
+     V("", "break", _D, "                if self.cancel.is_set():\n                    self.logger.info(\"User cancelled execution.\")", "                if self.complete_event.is_set():\n                    self.logger.info(\"User cancelled execution.\")"),
+     V("", "break", _D, "completed = self.complete.is_set() or runner.completed", "completed = self.complete_event.is_set() or runner.completed")],
+    V("node mechanic: reply address computed once before the whole-body try", "keep", _M, "    def receiveMsg_StartNodes(self, msg, sender):\n        try:\n            self.host = msg.ip\n            self.reply_to = getattr(msg, \"reply_to\", sender)\n",
+      "    def receiveMsg_StartNodes(self, msg, sender):\n        reply_to = getattr(msg, \"reply_to\", sender)\n        try:\n            self.host = msg.ip\n            self.reply_to = reply_to\n"),
+    V("node mechanic: fallible work moved in front of the whole-body try", "break", _M, "    def receiveMsg_StartNodes(self, msg, sender):\n        try:\n            self.host = msg.ip\n",
+      "    def receiveMsg_StartNodes(self, msg, sender):\n        root = paths.rally_root()\n        try:\n            self.host = msg.ip\n", "O9.2"),
+    [V("node mechanic: start failure sent to a local that may be None", "break", _M, "    def receiveMsg_StartNodes(self, msg, sender):\n        try:\n            self.host = msg.ip\n",
+       "    def receiveMsg_StartNodes(self, msg, sender):\n        requester = getattr(msg, \"reply_to\", None)\n        try:\n            self.host = msg.ip\n", "O9.4"),
+     V("", "break", _M, "            self.send(getattr(msg, \"reply_to\", sender), actor.BenchmarkFailure(ex_value, traceback.format_exc()))", "            self.send(requester, actor.BenchmarkFailure(ex_value, traceback.format_exc()))")],
+    V("worker forwards failures through a helper method", "keep", _D, "        # sent by our no_retry infrastructure; forward to master\n        self.send(self.driver_actor, msg)",
+      "        self._escalate(msg)\n\n    def _escalate(self, failure):\n        self.send(self.driver_actor, failure)"),
+    V("worker's forwarding helper forwards on one path only", "break", _D, "        # sent by our no_retry infrastructure; forward to master\n        self.send(self.driver_actor, msg)",
+      "        self._escalate(msg)\n\n    def _escalate(self, failure):\n        if self.executor_future is not None:\n            self.send(self.driver_actor, failure)", "O9.3"),
+    V("forwarding helper takes the target as a parameter", "keep", _D, "        # sent by our no_retry infrastructure; forward to master\n        self.send(self.driver_actor, msg)",
+      "        self._pass_on(self.driver_actor, msg)\n\n    def _pass_on(self, target, failure):\n        self.send(target, failure)"),
+    V("result-guarding flag renamed consistently (error -> failed)", "keep", _R, r"(self|coordinator)\.error\b", r"\1.failed", count=5, regex=True),
+    V("flag renamed in the coordinator only: race control keeps setting the old attribute", "break", _R, r"self\.error\b", "self.failed", "O9.3", count=3, regex=True),
+    [V("results published by a helper method called under the guard", "keep", _R,
+       "            final_results = metrics.calculate_results(self.metrics_store, self.race)\n            self.race.add_results(final_results)\n            self.race_store.store_race(self.race)\n            metrics.results_store(self.cfg).store_results(self.race)\n            reporter.summarize(final_results, self.cfg)\n        else:",
+       "            self._publish_results()\n        else:"),
+     V("", "keep", _R, "        self.metrics_store.close()\n\n\ndef race(", "        self.metrics_store.close()\n\n    def _publish_results(self):\n        final_results = metrics.calculate_results(self.metrics_store, self.race)\n        self.race.add_results(final_results)\n"
+       "        self.race_store.store_race(self.race)\n        metrics.results_store(self.cfg).store_results(self.race)\n        reporter.summarize(final_results, self.cfg)\n\n\ndef race(")],
+    [V("the publishing helper is called before the guard is looked at", "break", _R,
+       "            final_results = metrics.calculate_results(self.metrics_store, self.race)\n            self.race.add_results(final_results)\n            self.race_store.store_race(self.race)\n            metrics.results_store(self.cfg).store_results(self.race)\n            reporter.summarize(final_results, self.cfg)\n        else:",
+       "            self.logger.info(\"Results published.\")\n        else:", "O9.6"),
+     V("", "break", _R, "        self.metrics_store.flush()\n        if not self.cancelled and not self.error:", "        self.metrics_store.flush()\n        self._publish_results()\n        if not self.cancelled and not self.error:"),
+     V("", "break", _R, "        self.metrics_store.close()\n\n\ndef race(", "        self.metrics_store.close()\n\n    def _publish_results(self):\n        final_results = metrics.calculate_results(self.metrics_store, self.race)\n        self.race.add_results(final_results)\n"
+       "        self.race_store.store_race(self.race)\n        metrics.results_store(self.cfg).store_results(self.race)\n        reporter.summarize(final_results, self.cfg)\n\n\ndef race(")],
+    V("results guard spelled with identity tests", "keep", _R, "        if not self.cancelled and not self.error:", "        if self.cancelled is False and self.error is False:"),
+    V("results guard tests only one flag by identity", "break", _R, "        if not self.cancelled and not self.error:", "        if self.cancelled is False and self.error is not None:", "O9.6"),
+    V("task executor polls the future through a local alias", "keep", _D, "            e = self.executor_future.exception(timeout=0)\n            if e:\n                self.logger.exception(\"Worker failed.",
+      "            future = self.executor_future\n            e = future.exception(timeout=0)\n            if e:\n                self.logger.exception(\"Worker failed."),
+    V("task executor reports the failure through a helper method", "keep", _D, "                self.send(self.task_preparation_actor, actor.BenchmarkFailure(\"Error in task executor\", str(e)))\n            else:\n                self.executor_future = None\n                self.send(self.task_preparation_actor, ReadyForWork())\n        else:\n            self.wakeupAfter(datetime.timedelta(seconds=self.wakeup_interval))\n",
+      "                self._report(e)\n            else:\n                self.executor_future = None\n                self.send(self.task_preparation_actor, ReadyForWork())\n        else:\n            self.wakeupAfter(datetime.timedelta(seconds=self.wakeup_interval))\n\n    def _report(self, e):\n        self.send(self.task_preparation_actor, actor.BenchmarkFailure(\"Error in task executor\", str(e)))\n"),
+    V("task executor's reporting helper sends on one path only", "break", _D, "                self.send(self.task_preparation_actor, actor.BenchmarkFailure(\"Error in task executor\", str(e)))\n            else:\n                self.executor_future = None\n                self.send(self.task_preparation_actor, ReadyForWork())\n        else:\n            self.wakeupAfter(datetime.timedelta(seconds=self.wakeup_interval))\n",
+      "                self._report(e)\n            else:\n                self.executor_future = None\n                self.send(self.task_preparation_actor, ReadyForWork())\n        else:\n            self.wakeupAfter(datetime.timedelta(seconds=self.wakeup_interval))\n\n    def _report(self, e):\n        if self.track_name:\n            self.send(self.task_preparation_actor, actor.BenchmarkFailure(\"Error in task executor\", str(e)))\n", "O9.5"),
+    V("track preparator reports a dead worker through a helper method", "keep", _D, "            self.send(self.driver_actor, actor.BenchmarkFailure(\"A track preparation worker has exited prematurely.\"))\n",
+      "            self._fail(\"A track preparation worker has exited prematurely.\")\n\n    def _fail(self, text):\n        self.send(self.driver_actor, actor.BenchmarkFailure(text))\n"),
+    [V("track preparator: helper shape, reported only when it IS exiting", "break", _D, "            self.send(self.driver_actor, actor.BenchmarkFailure(\"A track preparation worker has exited prematurely.\"))\n",
+       "            self._fail(\"A track preparation worker has exited prematurely.\")\n\n    def _fail(self, text):\n        self.send(self.driver_actor, actor.BenchmarkFailure(text))\n", "O9.3w"),
+     V("", "break", _D, "    def receiveMsg_ChildActorExited(self, msg, sender):\n        if self.exiting:\n", "    def receiveMsg_ChildActorExited(self, msg, sender):\n        if not self.exiting:\n")],
+    [V("the driver actor's completion announcement renamed", "keep", _D, "    def on_benchmark_complete(self, metrics):\n        self.send(self.benchmark_actor, BenchmarkComplete(metrics))", "    def announce_completion(self, metrics):\n        self.send(self.benchmark_actor, BenchmarkComplete(metrics))"),
+     V("", "keep", _D, "                self.driver_actor.on_benchmark_complete(m)\n", "                self.driver_actor.announce_completion(m)\n")],
+    [V("renamed announcement followed by fallible work", "break", _D, "    def on_benchmark_complete(self, metrics):\n        self.send(self.benchmark_actor, BenchmarkComplete(metrics))", "    def announce_completion(self, metrics):\n        self.send(self.benchmark_actor, BenchmarkComplete(metrics))", "O9.6b"),
+     V("", "break", _D, "                self.driver_actor.on_benchmark_complete(m)\n", "                self.driver_actor.announce_completion(m)\n                self.telemetry.on_benchmark_stop()\n")],
+    V("exit request built into a local first", "keep", _R, "        self.send(self.main_driver, thespian.actors.ActorExitRequest())\n", "        exit_request = thespian.actors.ActorExitRequest()\n        self.send(self.main_driver, exit_request)\n"),
+    V("exit request (via a local) sent BEFORE the results are computed", "break", _R, "        self.coordinator.on_benchmark_complete(msg.metrics)\n        self.send(self.main_driver, thespian.actors.ActorExitRequest())\n",
+      "        exit_request = thespian.actors.ActorExitRequest()\n        self.send(self.main_driver, exit_request)\n        self.coordinator.on_benchmark_complete(msg.metrics)\n", "O9.2x"),
+    V("failure message bound to a local before it is sent", "keep", _D, "                self.send(self.benchmark_actor, actor.BenchmarkFailure(f\"Worker [{worker_index}] has exited prematurely.\"))",
+      "                failure = actor.BenchmarkFailure(f\"Worker [{worker_index}] has exited prematurely.\")\n                self.send(self.benchmark_actor, failure)"),
+    V("Success reported through a helper method of race control", "keep", _R, "        self.logger.info(\"Mechanic has stopped engine successfully.\")\n        self.send(self.start_sender, Success())\n",
+      "        self.logger.info(\"Mechanic has stopped engine successfully.\")\n        self._report_success()\n\n    def _report_success(self):\n        self.send(self.start_sender, Success())\n"),
+    [V("the Success helper is also called when the benchmark was cancelled", "break", _R, "        self.logger.info(\"Mechanic has stopped engine successfully.\")\n        self.send(self.start_sender, Success())\n",
+       "        self.logger.info(\"Mechanic has stopped engine successfully.\")\n        self._report_success()\n\n    def _report_success(self):\n        self.send(self.start_sender, Success())\n", "O9.7"),
+     V("", "break", _R, "        self.coordinator.cancelled = True\n", "        self.coordinator.cancelled = True\n        self._report_success()\n")],
+    V("Ctrl+C: the cancellation message bound to a local", "keep", _R, "        actor_system.ask(benchmark_actor, actor.BenchmarkCancelled())\n", "        cancelled = actor.BenchmarkCancelled()\n        actor_system.ask(benchmark_actor, cancelled)\n"),
+    V("Ctrl+C: race control is told without waiting for the answer", "break", _R, "        actor_system.ask(benchmark_actor, actor.BenchmarkCancelled())\n", "        actor_system.tell(benchmark_actor, actor.BenchmarkCancelled())\n", "O9.9"),
+    [V("the store's open mark renamed consistently", "keep", "esrally/metrics.py", r"self\.opened\b", "self.is_open", count=3, regex=True),
+     V("", "keep", _D, "self.metrics_store.opened", "self.metrics_store.is_open")],
+    V("the driver tests a mark the store never clears", "break", _D, "        if self.metrics_store and self.metrics_store.opened:", "        if self.metrics_store and self.metrics_store.meta_info:", "O9.3"),
+    [V("worker's exit request sets the event in a helper method", "keep", _D, "        if self.executor_future is not None and self.executor_future.running():\n            self.cancel.set()\n",
+       "        if self.executor_future is not None and self.executor_future.running():\n            self._cancel_executor()\n"),
+     V("", "keep", _D, "        self.logger.debug(\"Worker[%s] is exiting due to ActorExitRequest.\", str(self.worker_id))\n", "        self.logger.debug(\"Worker[%s] is exiting due to ActorExitRequest.\", str(self.worker_id))\n\n    def _cancel_executor(self):\n        self.cancel.set()\n")],
+    [V("helper shape: the event is set only when the executor does NOT run", "break", _D, "        if self.executor_future is not None and self.executor_future.running():\n            self.cancel.set()\n",
+       "        if self.executor_future is not None and not self.executor_future.running():\n            self._cancel_executor()\n", "O9.9"),
+     V("", "break", _D, "        self.logger.debug(\"Worker[%s] is exiting due to ActorExitRequest.\", str(self.worker_id))\n", "        self.logger.debug(\"Worker[%s] is exiting due to ActorExitRequest.\", str(self.worker_id))\n\n    def _cancel_executor(self):\n        self.cancel.set()\n")],
+    V("metrics store close takes a time stamp before it clears the open mark", "keep", "esrally/metrics.py", "        self.logger.info(\"Closing metrics store.\")\n        self.opened = False", "        self.logger.info(\"Closing metrics store.\")\n        self._closed_at = time.time()\n        self.opened = False"),
+    V("new log-only handler of a package message without a guard", "keep", _D, "    def receiveMsg_BenchmarkFailure(self, msg, sender):\n        # sent by our no_retry infrastructure; forward to master\n        self.send(self.driver_actor, msg)",
+      "    def receiveMsg_ReadyForWork(self, msg, sender):\n        self.logger.debug(\"Worker[%s] ignores ReadyForWork.\", str(self.worker_id))\n\n    def receiveMsg_BenchmarkFailure(self, msg, sender):\n        # sent by our no_retry infrastructure; forward to master\n        self.send(self.driver_actor, msg)"),
+    V("new handler of a package message does fallible work without a guard", "break", _D, "    def receiveMsg_BenchmarkFailure(self, msg, sender):\n        # sent by our no_retry infrastructure; forward to master\n        self.send(self.driver_actor, msg)",
+      "    def receiveMsg_ReadyForWork(self, msg, sender):\n        self.logger.debug(\"Worker[%s] got ReadyForWork.\", str(self.worker_id))\n        self.drive()\n\n    def receiveMsg_BenchmarkFailure(self, msg, sender):\n        # sent by our no_retry infrastructure; forward to master\n        self.send(self.driver_actor, msg)", "O9.2"),
+    [V("race(): the reply dispatch extracted into a module-level function", "keep", _R, "        if isinstance(result, Success):\n            logger.info(\"Benchmark has finished successfully.\")\n        # may happen if one of the load generators has detected that the user has cancelled the benchmark.\n        elif isinstance(result, actor.BenchmarkCancelled):\n            logger.info(\"User has cancelled the benchmark (detected by actor).\")\n        elif isinstance(result, actor.BenchmarkFailure):\n            logger.error(\"A benchmark failure has occurred\")\n            raise exceptions.RallyError(result.message, result.cause)\n        else:\n            raise exceptions.RallyError(\"Got an unexpected result during benchmarking: [%s].\" % str(result))\n",
+       "        _evaluate(result, logger)\n"),
+     V("", "keep", _R, "def race(cfg: types.Config", "def _evaluate(result, logger):\n    if isinstance(result, Success):\n        logger.info(\"Benchmark has finished successfully.\")\n    elif isinstance(result, actor.BenchmarkCancelled):\n        logger.info(\"User has cancelled the benchmark (detected by actor).\")\n    elif isinstance(result, actor.BenchmarkFailure):\n        logger.error(\"A benchmark failure has occurred\")\n        raise exceptions.RallyError(result.message, result.cause)\n    else:\n        raise exceptions.RallyError(\"Got an unexpected result during benchmarking: [%s].\" % str(result))\n\n\ndef race(cfg: types.Config")],
+    [V("extracted reply dispatch only logs a failure", "break", _R, "        if isinstance(result, Success):\n            logger.info(\"Benchmark has finished successfully.\")\n        # may happen if one of the load generators has detected that the user has cancelled the benchmark.\n        elif isinstance(result, actor.BenchmarkCancelled):\n            logger.info(\"User has cancelled the benchmark (detected by actor).\")\n        elif isinstance(result, actor.BenchmarkFailure):\n            logger.error(\"A benchmark failure has occurred\")\n            raise exceptions.RallyError(result.message, result.cause)\n        else:\n            raise exceptions.RallyError(\"Got an unexpected result during benchmarking: [%s].\" % str(result))\n",
+       "        _evaluate(result, logger)\n", "O9.7"),
+     V("", "break", _R, "def race(cfg: types.Config", "def _evaluate(result, logger):\n    if isinstance(result, Success):\n        logger.info(\"Benchmark has finished successfully.\")\n    elif isinstance(result, actor.BenchmarkCancelled):\n        logger.info(\"User has cancelled the benchmark (detected by actor).\")\n    elif isinstance(result, actor.BenchmarkFailure):\n        logger.error(\"A benchmark failure has occurred\")\n    else:\n        raise exceptions.RallyError(\"Got an unexpected result during benchmarking: [%s].\" % str(result))\n\n\ndef race(cfg: types.Config")],
+    [V("driver actor: close-and-forward extracted into a helper shared by the failure and the cancel handler", "keep", _D, "        self.logger.error(\"Main driver received a fatal exception from a load generator. Shutting down.\")\n        self.driver.close()\n        self.send(self.benchmark_actor, msg)",
+       "        self.logger.error(\"Main driver received a fatal exception from a load generator. Shutting down.\")\n        self._shutdown_and_forward(msg)"),
+     V("", "keep", _D, "        self.logger.info(\"Main driver received a notification that the benchmark has been cancelled.\")\n        self.driver.close()\n        self.send(self.benchmark_actor, msg)",
+       "        self.logger.info(\"Main driver received a notification that the benchmark has been cancelled.\")\n        self._shutdown_and_forward(msg)\n\n    def _shutdown_and_forward(self, msg):\n        self.driver.close()\n        self.send(self.benchmark_actor, msg)")],
+    [V("the shared close-and-forward helper forwards only while the benchmark runs", "break", _D, "        self.logger.error(\"Main driver received a fatal exception from a load generator. Shutting down.\")\n        self.driver.close()\n        self.send(self.benchmark_actor, msg)",
+       "        self.logger.error(\"Main driver received a fatal exception from a load generator. Shutting down.\")\n        self._shutdown_and_forward(msg)", "O9.3"),
+     V("", "break", _D, "        self.logger.info(\"Main driver received a notification that the benchmark has been cancelled.\")\n        self.driver.close()\n        self.send(self.benchmark_actor, msg)",
+       "        self.logger.info(\"Main driver received a notification that the benchmark has been cancelled.\")\n        self._shutdown_and_forward(msg)\n\n    def _shutdown_and_forward(self, msg):\n        self.driver.close()\n        if self.status != \"init\":\n            self.send(self.benchmark_actor, msg)")],
+    [V("race control raises the flag through a method of the coordinator", "keep", _R, "        self.coordinator.error = True\n        self.send(self.start_sender, msg)\n\n    @actor.no_retry(\"race control\")  # pylint: disable=no-value-for-parameter\n    def receiveMsg_BenchmarkComplete",
+       "        self.coordinator.mark_failed()\n        self.send(self.start_sender, msg)\n\n    @actor.no_retry(\"race control\")  # pylint: disable=no-value-for-parameter\n    def receiveMsg_BenchmarkComplete"),
+     V("", "keep", _R, "    def on_task_finished(self, new_metrics):", "    def mark_failed(self):\n        self.error = True\n\n    def on_task_finished(self, new_metrics):")],
+    [V("the coordinator's mark_failed() raises the flag on one path only", "break", _R, "        self.coordinator.error = True\n        self.send(self.start_sender, msg)\n\n    @actor.no_retry(\"race control\")  # pylint: disable=no-value-for-parameter\n    def receiveMsg_BenchmarkComplete",
+       "        self.coordinator.mark_failed()\n        self.send(self.start_sender, msg)\n\n    @actor.no_retry(\"race control\")  # pylint: disable=no-value-for-parameter\n    def receiveMsg_BenchmarkComplete", "O9.3"),
+     V("", "break", _R, "    def on_task_finished(self, new_metrics):", "    def mark_failed(self):\n        if self.race is not None:\n            self.error = True\n\n    def on_task_finished(self, new_metrics):")],
+    V("dispatcher re-wraps the failure before it passes it on", "keep", _M, "    def receiveMsg_BenchmarkFailure(self, msg, sender):\n        self.send(self.start_sender, msg)",
+      "    def receiveMsg_BenchmarkFailure(self, msg, sender):\n        self.send(self.start_sender, actor.BenchmarkFailure(msg.message, msg.cause))"),
+    V("dispatcher re-wraps the failure but only logs it", "break", _M, "    def receiveMsg_BenchmarkFailure(self, msg, sender):\n        self.send(self.start_sender, msg)",
+      "    def receiveMsg_BenchmarkFailure(self, msg, sender):\n        failure = actor.BenchmarkFailure(msg.message, msg.cause)\n        self.logger.error(\"%s\", failure)", "O9."),
 ]
